@@ -147,7 +147,7 @@ theorem aref_nat {v : View α} {v' : View β} (R : ViewRel f v v') (a : ARef) :
       simp only [emap_ok, List.length_map, List.getElem?_map]
       cases normIdx l.length i with
       | none => rfl
-      | some k => cases l[k]? <;> rfl
+      | some k => cases hk : l[k]? <;> simp [hk]
 
 theorem mapE_nat {γ : Type} {g : γ → Except Err α} {g' : γ → Except Err β}
     (hg : ∀ b, g' b = emap f (g b)) (xs : List γ) :
@@ -189,7 +189,7 @@ theorem planIndex_nat {v : View α} {v' : View β} (R : ViewRel f v v') (h : Nat
     simp only [planIndex, List.length_map, List.getElem?_map]
     cases normIdx old.length i with
     | none => simp [ExRel]
-    | some k => cases old[k]? <;> simp [ExRel, ActRel]
+    | some k => cases hk : old[k]? <;> simp [hk, ExRel, ActRel]
   | slice sl =>
     simp only [planIndex, List.length_map]
     cases sliceAdjust old.length sl <;> simp [ExRel, ActRel, selPlan, pick_map]
@@ -203,7 +203,7 @@ theorem planIndex_nat {v : View α} {v' : View β} (R : ViewRel f v v') (h : Nat
     simp only [planIndex, findLabel_nat R, List.getElem?_map]
     cases findLabel v.lab old p with
     | error e => simp [ExRel]
-    | ok k => cases old[k]? <;> simp [ExRel, ActRel]
+    | ok k => cases hk : old[k]? <;> simp [hk, ExRel, ActRel]
   | tuple ks =>
     simp only [planIndex, List.length_map]
     split
@@ -213,7 +213,7 @@ theorem planIndex_nat {v : View α} {v' : View β} (R : ViewRel f v v') (h : Nat
       rw [this]
       cases mapE (resolveKey v.lab old) ks with
       | error e => simp [ExRel]
-      | ok is => cases mapE (normIdxE old.length) is <;> simp [ExRel, ActRel, selPlan, pick_map]
+      | ok is => cases hq : mapE (normIdxE old.length) is <;> simp [hq, ExRel, ActRel, selPlan, pick_map]
   | keys ks =>
     simp only [planIndex, List.length_map]
     have : mapE (resolveKey v'.lab (old.map f)) ks = mapE (resolveKey v.lab old) ks := by
@@ -221,8 +221,2646 @@ theorem planIndex_nat {v : View α} {v' : View β} (R : ViewRel f v v') (h : Nat
     rw [this]
     cases mapE (resolveKey v.lab old) ks with
     | error e => simp [ExRel]
-    | ok is => cases mapE (normIdxE old.length) is <;> simp [ExRel, ActRel, selPlan, pick_map]
+    | ok is => cases hq : mapE (normIdxE old.length) is <;> simp [hq, ExRel, ActRel, selPlan, pick_map]
+
+
+/-- the hypothesis under which removal by identity (`-`, `-=`, `remove`) is the same as removal by
+payload: within the operands, equal images under `f` come from equal elements -/
+def SubAgree (f : α → β) (v : View α) : Op → Prop
+  | .sub h it => ∀ old xs b, v.atoms h = .ok old → v.iter it = .ok (xs, b) → ∀ a ∈ old, f a ∈ xs.map f → a ∈ xs
+  | .isub h it => ∀ old xs b, v.atoms h = .ok old → v.iter it = .ok (xs, b) → ∀ a ∈ old, f a ∈ xs.map f → a ∈ xs
+  | .remove h r => ∀ old x, v.atoms h = .ok old → v.aref r = .ok x → ∀ y ∈ old, f y = f x → y = x
+  | _ => True
+
+theorem filter_notin_map [DecidableEq α] [DecidableEq β] (old xs : List α)
+    (hag : ∀ a ∈ old, f a ∈ xs.map f → a ∈ xs) :
+    (old.map f).filter (fun b => decide (b ∉ xs.map f)) = (old.filter (fun a => decide (a ∉ xs))).map f := by
+  rw [List.filter_map]
+  congr 1
+  apply List.filter_congr
+  intro a ha
+  simp only [Function.comp, decide_eq_decide]
+  constructor
+  · intro h1 h2; exact h1 (List.mem_map_of_mem h2)
+  · intro h1 h2; exact h1 (hag a ha h2)
+
+theorem idxOfE_map [DecidableEq α] [DecidableEq β] (x : α) (old : List α) (k : Nat)
+    (hinj : ∀ y ∈ old, f y = f x → y = x) :
+    idxOfE (f x) (old.map f) k = idxOfE x old k := by
+  induction old generalizing k with
+  | nil => rfl
+  | cons a l ih =>
+    simp only [List.map_cons, idxOfE]
+    by_cases h : a = x
+    · simp [h]
+    · have h' : f a ≠ f x := fun e => h (hinj a (by simp) e)
+      simp only [h, h', if_false]
+      exact ih _ (fun y hy => hinj y (List.mem_cons_of_mem _ hy))
+
+theorem planG_nat [DecidableEq α] [DecidableEq β] {v : View α} {v' : View β} (R : ViewRel f v v')
+    (op : Op) (hag : SubAgree f v op) : ExRel f (planG v op) (planG v' op) := by
+  cases op with
+  | mkAtom p => simp [planG, ExRel, ActRel]
+  | mkStru => simp [planG, ExRel, ActRel]
+  | addNew h p =>
+    simp only [planG, atoms_nat R]
+    rcases h1 : v.atoms h with e | old <;> simp [ExRel, ActRel]
+  | append h a c =>
+    simp only [planG, atoms_nat R, aref_nat R]
+    rcases h1 : v.atoms h with e | old <;> simp [ExRel]
+    rcases h2 : v.aref a with e | x <;> simp [ExRel, ActRel]
+  | insert h i a c =>
+    simp only [planG, atoms_nat R, aref_nat R]
+    rcases h1 : v.atoms h with e | old <;> simp [ExRel]
+    rcases h2 : v.aref a with e | x <;> simp [ExRel, ActRel]
+  | extend h it c =>
+    simp only [planG, atoms_nat R, iter_nat R]
+    rcases h1 : v.atoms h with e | old <;> simp [ExRel]
+    rcases h2 : v.iter it with e | ⟨xs, b⟩ <;> simp [ExRel, ActRel]
+  | getitem h ix =>
+    simp only [planG, atoms_nat R]
+    rcases h1 : v.atoms h with e | old <;> simp [ExRel]
+    exact planIndex_nat R h old ix
+  | setitem h i a c =>
+    simp only [planG, atoms_nat R, aref_nat R]
+    rcases h1 : v.atoms h with e | old <;> simp [ExRel]
+    rcases h2 : v.aref a with e | x <;> simp [ExRel, ActRel]
+  | setslice h sl it c =>
+    simp only [planG, atoms_nat R, iter_nat R]
+    rcases h1 : v.atoms h with e | old <;> simp [ExRel]
+    rcases h2 : v.iter it with e | ⟨xs, b⟩ <;> simp [ExRel]
+    rcases h3 : sliceAdjust old.length sl with e | a <;> simp [ExRel, ActRel]
+  | delitem h i =>
+    simp only [planG, atoms_nat R]
+    rcases h1 : v.atoms h with e | old <;> simp [ExRel, ActRel]
+  | delslice h sl =>
+    simp only [planG, atoms_nat R]
+    rcases h1 : v.atoms h with e | old <;> simp [ExRel, ActRel]
+  | add h it =>
+    simp only [planG, atoms_nat R, iter_nat R]
+    rcases h1 : v.atoms h with e | old <;> simp [ExRel]
+    rcases h2 : v.iter it with e | ⟨xs, b⟩ <;> simp [ExRel, ActRel]
+  | iadd h it =>
+    simp only [planG, atoms_nat R, iter_nat R]
+    rcases h1 : v.atoms h with e | old <;> simp [ExRel]
+    rcases h2 : v.iter it with e | ⟨xs, b⟩ <;> simp [ExRel, ActRel]
+  | sub h it =>
+    simp only [planG, atoms_nat R, iter_nat R]
+    rcases h1 : v.atoms h with e | old <;> simp [ExRel]
+    rcases h2 : v.iter it with e | ⟨xs, b⟩
+    · simp [ExRel]
+    · simp only [emap_ok, ExRel, ActRel]
+      have := filter_notin_map (f := f) old xs (hag old xs b h1 h2)
+      simp only [decide_not] at this
+      exact ⟨trivial, this, trivial⟩
+  | isub h it =>
+    simp only [planG, atoms_nat R, iter_nat R]
+    rcases h1 : v.atoms h with e | old <;> simp [ExRel]
+    rcases h2 : v.iter it with e | ⟨xs, b⟩
+    · simp [ExRel]
+    · simp only [emap_ok, ExRel, ActRel]
+      have := filter_notin_map (f := f) old xs (hag old xs b h1 h2)
+      simp only [decide_not] at this
+      exact ⟨trivial, this, trivial⟩
+  | mul h n =>
+    simp only [planG, atoms_nat R]
+    rcases h1 : v.atoms h with e | old <;> simp [ExRel, ActRel, rep_map]
+  | imul h n =>
+    simp only [planG, atoms_nat R]
+    rcases h1 : v.atoms h with e | old <;> simp [ExRel]
+    by_cases hn : n ≤ 0 <;> simp [hn, ExRel, ActRel, rep_map]
+  | copy h =>
+    simp only [planG, atoms_nat R]
+    rcases h1 : v.atoms h with e | old <;> simp [ExRel, ActRel]
+  | pickle h proto =>
+    simp only [planG, atoms_nat R]
+    rcases h1 : v.atoms h with e | old <;> simp [ExRel]
+    by_cases hp : 2 ≤ proto <;> simp [hp, ExRel, ActRel]
+  | deepcopy h =>
+    simp only [planG, atoms_nat R]
+    rcases h1 : v.atoms h with e | old <;> simp [ExRel, ActRel]
+  | setLat h src =>
+    simp only [planG, atoms_nat R]
+    rcases h1 : v.atoms h with e | old <;> simp [ExRel]
+    cases src with
+    | fresh => simp [ActRel]
+    | ofStru h' =>
+      simp only [atoms_nat R]
+      rcases h2 : v.atoms h' with e | old' <;> simp [ActRel]
+  | pop h i =>
+    simp only [planG, atoms_nat R]
+    rcases h1 : v.atoms h with e | old <;> simp [ExRel, ActRel]
+  | remove h a =>
+    simp only [planG, atoms_nat R, aref_nat R]
+    rcases h1 : v.atoms h with e | old <;> simp [ExRel]
+    rcases h2 : v.aref a with e | x <;> simp [ExRel]
+    rw [idxOfE_map x old 0 (hag old x h1 h2)]
+    rcases h3 : idxOfE x old 0 with e | k <;> simp [ActRel]
+  | reverse h =>
+    simp only [planG, atoms_nat R]
+    rcases h1 : v.atoms h with e | old <;> simp [ExRel, ActRel]
+  | sort h =>
+    simp only [planG, atoms_nat R]
+    rcases h1 : v.atoms h with e | old <;> simp [ExRel, ActRel]
+    congr 1
+    apply List.map_congr_left
+    intro a _
+    exact R.lab a
+  | clear h =>
+    simp only [planG, atoms_nat R]
+    rcases h1 : v.atoms h with e | old <;> simp [ExRel, ActRel]
+  | drop h =>
+    simp only [planG, atoms_nat R]
+    rcases h1 : v.atoms h with e | old <;> simp [ExRel, ActRel]
 
 end Natural
+
+/-! ### the elements of a plan come from the view -/
+
+section Origin
+variable {α : Type} (P : α → Prop)
+
+def ActAll : Act α → Prop
+  | .plan p => (∀ x ∈ p.inc, P x) ∧ (∀ h xs, p.pre = some (h, xs) → ∀ x ∈ xs, P x)
+  | .retAtom a _ => P a
+  | .copyShape _ xs => ∀ x ∈ xs, P x
+  | _ => True
+
+def ViewAll (v : View α) : Prop :=
+  (∀ l, some l ∈ v.strus → ∀ a ∈ l, P a) ∧ (∀ a ∈ v.pool, P a)
+
+variable {P}
+
+theorem pick_subset (l : List α) (idxs : List Nat) : ∀ a ∈ pick l idxs, a ∈ l := by
+  intro a ha
+  simp only [pick, List.mem_filterMap] at ha
+  obtain ⟨i, _, hi⟩ := ha
+  exact List.mem_of_getElem? hi
+
+theorem rep_subset (n : Nat) (l : List α) : ∀ a ∈ rep n l, a ∈ l := by
+  induction n with
+  | zero => simp [rep]
+  | succ n ih =>
+    intro a ha
+    simp only [rep, List.mem_append] at ha
+    rcases ha with h | h
+    · exact h
+    · exact ih a h
+
+theorem atoms_all {v : View α} (hv : ViewAll P v) {h : Nat} {l : List α} (hl : v.atoms h = .ok l) :
+    ∀ a ∈ l, P a := by
+  simp only [View.atoms] at hl
+  split at hl
+  · rename_i l' heq
+    cases hl
+    exact hv.1 l (List.mem_of_getElem? heq)
+  · cases hl
+
+theorem aref_all {v : View α} (hv : ViewAll P v) {r : ARef} {x : α} (hx : v.aref r = .ok x) : P x := by
+  cases r with
+  | pool k =>
+    simp only [View.aref] at hx
+    split at hx
+    · rename_i a heq; cases hx; exact hv.2 _ (List.mem_of_getElem? heq)
+    · cases hx
+  | mem h i =>
+    simp only [View.aref] at hx
+    split at hx
+    · cases hx
+    · rename_i l hl
+      split at hx
+      · cases hx
+      · split at hx
+        · rename_i a heq; cases hx; exact atoms_all hv hl _ (List.mem_of_getElem? heq)
+        · cases hx
+
+theorem mapE_all {γ : Type} {g : γ → Except Err α} (hg : ∀ b x, g b = .ok x → P x) {bs : List γ} {xs : List α}
+    (h : mapE g bs = .ok xs) : ∀ x ∈ xs, P x := by
+  induction bs generalizing xs with
+  | nil => simp only [mapE] at h; cases h; simp
+  | cons b bs ih =>
+    simp only [mapE] at h
+    split at h
+    · cases h
+    · rename_i a ha
+      split at h
+      · cases h
+      · rename_i as has
+        cases h
+        intro x hx
+        simp only [List.mem_cons] at hx
+        rcases hx with hx | hx
+        · subst hx; exact hg b _ ha
+        · exact ih has x hx
+
+theorem iter_all {v : View α} (hv : ViewAll P v) {it : Iter} {xs : List α} {b : Bool}
+    (h : v.iter it = .ok (xs, b)) : ∀ x ∈ xs, P x := by
+  cases it with
+  | list rs =>
+    simp only [View.iter] at h
+    split at h
+    · rename_i l hl; cases h; exact mapE_all (fun _ _ => aref_all hv) hl
+    · cases h
+  | gen rs =>
+    simp only [View.iter] at h
+    split at h
+    · rename_i l hl; cases h; exact mapE_all (fun _ _ => aref_all hv) hl
+    · cases h
+  | stru h' =>
+    simp only [View.iter] at h
+    split at h
+    · rename_i l hl; cases h; exact atoms_all hv hl
+    · cases h
+  | tolist h' =>
+    simp only [View.iter] at h
+    split at h
+    · rename_i l hl; cases h; exact atoms_all hv hl
+    · cases h
+  | genOf h' =>
+    simp only [View.iter] at h
+    split at h
+    · rename_i l hl; cases h; exact atoms_all hv hl
+    · cases h
+
+theorem planIndex_all {v : View α} {h : Nat} {old : List α} (ho : ∀ a ∈ old, P a) {ix : Index} {act : Act α}
+    (hp : planIndex v h old ix = .ok act) : ActAll P act := by
+  cases ix <;> simp only [planIndex] at hp <;> (repeat' split at hp) <;>
+    first
+    | (cases hp
+       simp only [ActAll, selPlan]
+       first
+       | (rename_i heq; exact ho _ (List.mem_of_getElem? heq))
+       | exact ⟨fun x hx => ho x (pick_subset _ _ x hx), by simp⟩)
+    | cases hp
+
+
+theorem planG_all [DecidableEq α] {v : View α} (hv : ViewAll P v) {op : Op} {act : Act α}
+    (hp : planG v op = .ok act) : ActAll P act := by
+  cases op with
+  | mkAtom p => simp only [planG] at hp; cases hp; simp [ActAll]
+  | mkStru => simp only [planG] at hp; cases hp; simp [ActAll]
+  | addNew h p =>
+    simp only [planG] at hp
+    rcases h1 : v.atoms h with e | old <;> simp only [h1] at hp
+    · cases hp
+    · cases hp; simp [ActAll]
+  | append h a c =>
+    simp only [planG] at hp
+    rcases h1 : v.atoms h with e | old <;> simp only [h1] at hp
+    · cases hp
+    · rcases h2 : v.aref a with e | x <;> simp only [h2] at hp
+      · cases hp
+      · cases hp
+        simp only [ActAll, List.mem_singleton, forall_eq, reduceCtorEq, false_implies, implies_true, and_true]
+        exact aref_all hv h2
+  | insert h i a c =>
+    simp only [planG] at hp
+    rcases h1 : v.atoms h with e | old <;> simp only [h1] at hp
+    · cases hp
+    · rcases h2 : v.aref a with e | x <;> simp only [h2] at hp
+      · cases hp
+      · cases hp
+        simp only [ActAll, List.mem_singleton, forall_eq, reduceCtorEq, false_implies, implies_true, and_true]
+        exact aref_all hv h2
+  | extend h it c =>
+    simp only [planG] at hp
+    rcases h1 : v.atoms h with e | old <;> simp only [h1] at hp
+    · cases hp
+    · rcases h2 : v.iter it with e | ⟨xs, b⟩ <;> simp only [h2] at hp
+      · cases hp
+      · cases hp; simp only [ActAll, reduceCtorEq, false_implies, implies_true, and_true]; exact iter_all hv h2
+  | getitem h ix =>
+    simp only [planG] at hp
+    rcases h1 : v.atoms h with e | old <;> simp only [h1] at hp
+    · cases hp
+    · exact planIndex_all (atoms_all hv h1) hp
+  | setitem h i a c =>
+    simp only [planG] at hp
+    rcases h1 : v.atoms h with e | old <;> simp only [h1] at hp
+    · cases hp
+    · rcases h2 : v.aref a with e | x <;> simp only [h2] at hp
+      · cases hp
+      · cases hp
+        simp only [ActAll, List.mem_singleton, forall_eq, reduceCtorEq, false_implies, implies_true, and_true]
+        exact aref_all hv h2
+  | setslice h sl it c =>
+    simp only [planG] at hp
+    rcases h1 : v.atoms h with e | old <;> simp only [h1] at hp
+    · cases hp
+    · rcases h2 : v.iter it with e | ⟨xs, b⟩ <;> simp only [h2] at hp
+      · cases hp
+      · rcases h3 : sliceAdjust old.length sl with e | a <;> simp only [h3] at hp
+        · cases hp
+        · cases hp; simp only [ActAll, reduceCtorEq, false_implies, implies_true, and_true]; exact iter_all hv h2
+  | delitem h i =>
+    simp only [planG] at hp
+    rcases h1 : v.atoms h with e | old <;> simp only [h1] at hp
+    · cases hp
+    · cases hp; simp [ActAll]
+  | delslice h sl =>
+    simp only [planG] at hp
+    rcases h1 : v.atoms h with e | old <;> simp only [h1] at hp
+    · cases hp
+    · cases hp; simp [ActAll]
+  | add h it =>
+    simp only [planG] at hp
+    rcases h1 : v.atoms h with e | old <;> simp only [h1] at hp
+    · cases hp
+    · rcases h2 : v.iter it with e | ⟨xs, b⟩ <;> simp only [h2] at hp
+      · cases hp
+      · cases hp
+        simp only [ActAll, List.mem_append, reduceCtorEq, false_implies, implies_true, and_true]
+        intro x hx
+        rcases hx with hx | hx
+        · exact atoms_all hv h1 x hx
+        · exact iter_all hv h2 x hx
+  | iadd h it =>
+    simp only [planG] at hp
+    rcases h1 : v.atoms h with e | old <;> simp only [h1] at hp
+    · cases hp
+    · rcases h2 : v.iter it with e | ⟨xs, b⟩ <;> simp only [h2] at hp
+      · cases hp
+      · cases hp; simp only [ActAll, reduceCtorEq, false_implies, implies_true, and_true]; exact iter_all hv h2
+  | sub h it =>
+    simp only [planG] at hp
+    rcases h1 : v.atoms h with e | old <;> simp only [h1] at hp
+    · cases hp
+    · rcases h2 : v.iter it with e | ⟨xs, b⟩ <;> simp only [h2] at hp
+      · cases hp
+      · cases hp
+        simp only [ActAll, List.mem_filter, Option.some.injEq, Prod.mk.injEq, and_imp]
+        refine ⟨fun x hx _ => atoms_all hv h1 x hx, ?_⟩
+        intro h' xs' _ hxs x hx
+        subst hxs
+        exact atoms_all hv h1 x (List.mem_filter.mp hx).1
+  | isub h it =>
+    simp only [planG] at hp
+    rcases h1 : v.atoms h with e | old <;> simp only [h1] at hp
+    · cases hp
+    · rcases h2 : v.iter it with e | ⟨xs, b⟩ <;> simp only [h2] at hp
+      · cases hp
+      · cases hp
+        simp only [ActAll, List.mem_filter, reduceCtorEq, false_implies, implies_true, and_true, and_imp]
+        exact fun x hx _ => atoms_all hv h1 x hx
+  | mul h n =>
+    simp only [planG] at hp
+    rcases h1 : v.atoms h with e | old <;> simp only [h1] at hp
+    · cases hp
+    · cases hp
+      simp only [ActAll, Option.some.injEq, Prod.mk.injEq, and_imp]
+      refine ⟨fun x hx => atoms_all hv h1 x (rep_subset _ _ x hx), ?_⟩
+      intro h' xs' _ hxs x hx
+      subst hxs
+      simp at hx
+  | imul h n =>
+    simp only [planG] at hp
+    rcases h1 : v.atoms h with e | old <;> simp only [h1] at hp
+    · cases hp
+    · by_cases hn : n ≤ 0 <;> simp only [hn, if_true, if_false] at hp <;> cases hp
+      · simp [ActAll]
+      · simp only [ActAll, reduceCtorEq, false_implies, implies_true, and_true]
+        exact fun x hx => atoms_all hv h1 x (rep_subset _ _ x hx)
+  | copy h =>
+    simp only [planG] at hp
+    rcases h1 : v.atoms h with e | old <;> simp only [h1] at hp
+    · cases hp
+    · cases hp
+      simp only [ActAll, reduceCtorEq, false_implies, implies_true, and_true]
+      exact atoms_all hv h1
+  | pickle h proto =>
+    simp only [planG] at hp
+    rcases h1 : v.atoms h with e | old <;> simp only [h1] at hp
+    · cases hp
+    · by_cases hn : 2 ≤ proto <;> simp only [hn, if_true, if_false] at hp <;> cases hp
+      · simp only [ActAll, reduceCtorEq, false_implies, implies_true, and_true]
+        exact atoms_all hv h1
+      · simp only [ActAll]
+        exact atoms_all hv h1
+  | deepcopy h =>
+    simp only [planG] at hp
+    rcases h1 : v.atoms h with e | old <;> simp only [h1] at hp
+    · cases hp
+    · cases hp
+      simp only [ActAll, reduceCtorEq, false_implies, implies_true, and_true]
+      exact atoms_all hv h1
+  | setLat h src =>
+    simp only [planG] at hp
+    rcases h1 : v.atoms h with e | old <;> simp only [h1] at hp
+    · cases hp
+    · cases src with
+      | fresh => cases hp; simp [ActAll]
+      | ofStru h' =>
+        simp only at hp
+        rcases h2 : v.atoms h' with e | old' <;> simp only [h2] at hp <;> cases hp
+        simp [ActAll]
+  | pop h i =>
+    simp only [planG] at hp
+    rcases h1 : v.atoms h with e | old <;> simp only [h1] at hp
+    · cases hp
+    · cases hp; simp [ActAll]
+  | remove h a =>
+    simp only [planG] at hp
+    rcases h1 : v.atoms h with e | old <;> simp only [h1] at hp
+    · cases hp
+    · rcases h2 : v.aref a with e | x <;> simp only [h2] at hp
+      · cases hp
+      · rcases h3 : idxOfE x old 0 with e | k <;> simp only [h3] at hp <;> cases hp
+        simp [ActAll]
+  | reverse h =>
+    simp only [planG] at hp
+    rcases h1 : v.atoms h with e | old <;> simp only [h1] at hp
+    · cases hp
+    · cases hp; simp [ActAll]
+  | sort h =>
+    simp only [planG] at hp
+    rcases h1 : v.atoms h with e | old <;> simp only [h1] at hp
+    · cases hp
+    · cases hp; simp [ActAll]
+  | clear h =>
+    simp only [planG] at hp
+    rcases h1 : v.atoms h with e | old <;> simp only [h1] at hp
+    · cases hp
+    · cases hp; simp [ActAll]
+  | drop h =>
+    simp only [planG] at hp
+    rcases h1 : v.atoms h with e | old <;> simp only [h1] at hp
+    · cases hp
+    · cases hp; simp [ActAll]
+
+end Origin
+
+/-! ### an edit only rearranges the old members and the incoming elements -/
+
+section Subset
+variable {α : Type}
+
+theorem dropIdx_subset (idxs : List Nat) (l : List α) (k : Nat) : ∀ a ∈ dropIdx idxs l k, a ∈ l := by
+  induction l generalizing k with
+  | nil => simp [dropIdx]
+  | cons b l ih =>
+    intro a ha
+    simp only [dropIdx] at ha
+    split at ha
+    · exact List.mem_cons_of_mem _ (ih _ a ha)
+    · simp only [List.mem_cons] at ha
+      rcases ha with ha | ha
+      · simp [ha]
+      · exact List.mem_cons_of_mem _ (ih _ a ha)
+
+theorem setMany_subset (l : List α) (is : List Nat) (ys : List α) :
+    ∀ a ∈ setMany l is ys, a ∈ l ∨ a ∈ ys := by
+  induction is generalizing l ys with
+  | nil => intro a ha; cases ys <;> simp_all [setMany]
+  | cons i is ih =>
+    cases ys with
+    | nil => intro a ha; simp_all [setMany]
+    | cons y ys =>
+      intro a ha
+      simp only [setMany] at ha
+      rcases ih _ _ a ha with h | h
+      · rcases List.mem_or_eq_of_mem_set h with h' | h'
+        · exact Or.inl h'
+        · exact Or.inr (by simp [h'])
+      · exact Or.inr (by simp [h])
+
+theorem Edit.apply_subset {e : Edit} {old ys new : List α} {ret : Option α}
+    (h : e.apply old ys = .ok (new, ret)) :
+    (∀ a ∈ new, a ∈ old ∨ a ∈ ys) ∧ (∀ a, ret = some a → a ∈ old) := by
+  cases e with
+  | append =>
+    simp only [Edit.apply, Except.ok.injEq, Prod.mk.injEq] at h
+    obtain ⟨rfl, rfl⟩ := h
+    simp
+  | insert i =>
+    simp only [Edit.apply, Except.ok.injEq, Prod.mk.injEq] at h
+    obtain ⟨rfl, rfl⟩ := h
+    refine ⟨?_, by simp⟩
+    intro a ha
+    simp only [List.mem_append] at ha
+    rcases ha with (ha | ha) | ha
+    · exact Or.inl (List.mem_of_mem_take ha)
+    · exact Or.inr ha
+    · exact Or.inl (List.mem_of_mem_drop ha)
+  | setInt i =>
+    simp only [Edit.apply] at h
+    split at h
+    · rename_i k y _ _
+      simp only [Except.ok.injEq, Prod.mk.injEq] at h
+      obtain ⟨rfl, rfl⟩ := h
+      refine ⟨?_, by simp⟩
+      intro a ha
+      rcases List.mem_or_eq_of_mem_set ha with h' | h'
+      · exact Or.inl h'
+      · exact Or.inr (by simp [h'])
+    · cases h
+    · cases h
+  | setSlice sl =>
+    simp only [Edit.apply] at h
+    split at h
+    · cases h
+    · rename_i a _
+      split at h
+      · simp only [Except.ok.injEq, Prod.mk.injEq] at h
+        obtain ⟨rfl, rfl⟩ := h
+        refine ⟨?_, by simp⟩
+        intro x hx
+        simp only [List.mem_append] at hx
+        rcases hx with (hx | hx) | hx
+        · exact Or.inl (List.mem_of_mem_take hx)
+        · exact Or.inr hx
+        · exact Or.inl (List.mem_of_mem_drop hx)
+      · split at h
+        · cases h
+        · simp only [Except.ok.injEq, Prod.mk.injEq] at h
+          obtain ⟨rfl, rfl⟩ := h
+          exact ⟨setMany_subset _ _ _, by simp⟩
+  | replace =>
+    simp only [Edit.apply, Except.ok.injEq, Prod.mk.injEq] at h
+    obtain ⟨rfl, rfl⟩ := h
+    exact ⟨fun a ha => Or.inr ha, by simp⟩
+  | delInt i =>
+    simp only [Edit.apply] at h
+    split at h
+    · simp only [Except.ok.injEq, Prod.mk.injEq] at h
+      obtain ⟨rfl, rfl⟩ := h
+      exact ⟨fun a ha => Or.inl ((List.eraseIdx_sublist _ _).subset ha), by simp⟩
+    · cases h
+  | delSlice sl =>
+    simp only [Edit.apply] at h
+    split at h
+    · cases h
+    · simp only [Except.ok.injEq, Prod.mk.injEq] at h
+      obtain ⟨rfl, rfl⟩ := h
+      exact ⟨fun a ha => Or.inl (dropIdx_subset _ _ _ a ha), by simp⟩
+  | pop i =>
+    simp only [Edit.apply] at h
+    split at h
+    · simp only [Except.ok.injEq, Prod.mk.injEq] at h
+      obtain ⟨rfl, rfl⟩ := h
+      exact ⟨fun a ha => Or.inl ((List.eraseIdx_sublist _ _).subset ha), fun a ha => List.mem_of_getElem? ha⟩
+    · cases h
+  | delAt k =>
+    simp only [Edit.apply, Except.ok.injEq, Prod.mk.injEq] at h
+    obtain ⟨rfl, rfl⟩ := h
+    exact ⟨fun a ha => Or.inl ((List.eraseIdx_sublist _ _).subset ha), by simp⟩
+  | reverse =>
+    simp only [Edit.apply, Except.ok.injEq, Prod.mk.injEq] at h
+    obtain ⟨rfl, rfl⟩ := h
+    exact ⟨fun a ha => Or.inl (List.mem_reverse.mp ha), by simp⟩
+  | permute idxs =>
+    simp only [Edit.apply, Except.ok.injEq, Prod.mk.injEq] at h
+    obtain ⟨rfl, rfl⟩ := h
+    exact ⟨fun a ha => Or.inl (pick_subset _ _ a ha), by simp⟩
+  | clear =>
+    simp only [Edit.apply, Except.ok.injEq, Prod.mk.injEq] at h
+    obtain ⟨rfl, rfl⟩ := h
+    simp
+
+end Subset
+
+/-! ### the heap primitives -/
+
+theorem updAt_map {γ δ : Type} (F : γ → δ) (g : γ → γ) (G : δ → δ) (hFG : ∀ s, F (g s) = G (F s))
+    (l : List γ) (k : Nat) : (updAt l k g).map F = updAt (l.map F) k G := by
+  induction l generalizing k with
+  | nil => rfl
+  | cons a l ih => cases k <;> simp [updAt, hFG, ih]
+
+theorem updAt_length {γ : Type} (l : List γ) (k : Nat) (g : γ → γ) : (updAt l k g).length = l.length := by
+  induction l generalizing k with
+  | nil => rfl
+  | cons a l ih => cases k <;> simp [updAt, ih]
+
+theorem getElem?_updAt {γ : Type} (l : List γ) (k j : Nat) (g : γ → γ) :
+    (updAt l k g)[j]? = if j = k then l[j]?.map g else l[j]? := by
+  induction l generalizing k j with
+  | nil => simp [updAt]
+  | cons a l ih =>
+    cases k with
+    | zero => cases j <;> simp [updAt]
+    | succ k => cases j <;> simp [updAt, ih]
+
+theorem mem_updAt {γ : Type} {l : List γ} {k : Nat} {g : γ → γ} {s : γ} (h : s ∈ updAt l k g) :
+    s ∈ l ∨ ∃ t ∈ l, s = g t := by
+  induction l generalizing k with
+  | nil => simp [updAt] at h
+  | cons a l ih =>
+    cases k with
+    | zero =>
+      simp only [updAt, List.mem_cons] at h
+      rcases h with h | h
+      · exact Or.inr ⟨a, by simp, h⟩
+      · exact Or.inl (by simp [h])
+    | succ k =>
+      simp only [updAt, List.mem_cons] at h
+      rcases h with h | h
+      · exact Or.inl (by simp [h])
+      · rcases ih h with h' | ⟨t, ht, e⟩
+        · exact Or.inl (by simp [h'])
+        · exact Or.inr ⟨t, by simp [ht], e⟩
+
+/-- well-formed heap: every id reachable from a structure or the pool has been allocated -/
+structure Wf (w : World) : Prop where
+  atoms : ∀ s ∈ w.strus, ∀ a ∈ s.atoms, a < w.nextA
+  pool : ∀ a ∈ w.pool, a < w.nextA
+  lats : ∀ s ∈ w.strus, s.lat < w.nextL
+  lpos : 0 < w.nextL
+
+namespace World
+
+/-- the atoms `copySome` takes over as they are -/
+def keptOf : List Nat → List Bool → List Nat
+  | [], _ => []
+  | _ :: r, true :: fr => keptOf r fr
+  | a :: r, _ :: fr => a :: keptOf r fr
+  | a :: r, [] => a :: keptOf r []
+
+@[simp] theorem allocAtom_nextA (w : World) (p L : Nat) : (w.allocAtom p L).nextA = w.nextA + 1 := rfl
+@[simp] theorem allocAtom_nextL (w : World) (p L : Nat) : (w.allocAtom p L).nextL = w.nextL := rfl
+@[simp] theorem allocAtom_strus (w : World) (p L : Nat) : (w.allocAtom p L).strus = w.strus := rfl
+@[simp] theorem allocAtom_pool (w : World) (p L : Nat) : (w.allocAtom p L).pool = w.pool := rfl
+theorem allocAtom_pay (w : World) (p L i : Nat) : (w.allocAtom p L).pay i = if i = w.nextA then p else w.pay i := rfl
+theorem allocAtom_alat (w : World) (p L i : Nat) : (w.allocAtom p L).alat i = if i = w.nextA then L else w.alat i := rfl
+
+theorem copySome_frame (w : World) (xs : List Nat) (fl : List Bool) :
+    (w.copySome xs fl).1.strus = w.strus ∧ (w.copySome xs fl).1.pool = w.pool ∧
+    (w.copySome xs fl).1.nextL = w.nextL ∧ w.nextA ≤ (w.copySome xs fl).1.nextA ∧
+    (∀ i, i < w.nextA → (w.copySome xs fl).1.pay i = w.pay i ∧ (w.copySome xs fl).1.alat i = w.alat i) := by
+  induction xs generalizing w fl with
+  | nil => simp [copySome]
+  | cons a r ih =>
+    cases fl with
+    | nil => simpa [copySome] using ih w []
+    | cons b fr =>
+      cases b with
+      | false => simpa [copySome] using ih w fr
+      | true =>
+        simp only [copySome]
+        obtain ⟨h1, h2, h3, h4, h5⟩ := ih (w.allocAtom (w.pay a) (w.alat a)) fr
+        refine ⟨h1, h2, h3, ?_, ?_⟩
+        · simp only [allocAtom_nextA] at h4; omega
+        · intro i hi
+          have := h5 i (by simp only [allocAtom_nextA]; omega)
+          have hne : i ≠ w.nextA := by omega
+          simpa [allocAtom_pay, allocAtom_alat, hne] using this
+
+theorem copySome_length (w : World) (xs : List Nat) (fl : List Bool) : (w.copySome xs fl).2.length = xs.length := by
+  induction xs generalizing w fl with
+  | nil => simp [copySome]
+  | cons a r ih =>
+    cases fl with
+    | nil => simp [copySome, ih]
+    | cons b fr => cases b <;> simp [copySome, ih]
+
+theorem copySome_pay (w : World) (xs : List Nat) (fl : List Bool) (hx : ∀ x ∈ xs, x < w.nextA) :
+    (w.copySome xs fl).2.map (w.copySome xs fl).1.pay = xs.map w.pay := by
+  induction xs generalizing w fl with
+  | nil => simp [copySome]
+  | cons a r ih =>
+    have ha : a < w.nextA := hx a (by simp)
+    have hr : ∀ x ∈ r, x < w.nextA := fun x h => hx x (by simp [h])
+    cases fl with
+    | nil =>
+      simp only [copySome, List.map_cons, ih w [] hr]
+      rw [((copySome_frame w r []).2.2.2.2 a ha).1]
+    | cons b fr =>
+      cases b with
+      | false =>
+        simp only [copySome, List.map_cons, ih w fr hr]
+        rw [((copySome_frame w r fr).2.2.2.2 a ha).1]
+      | true =>
+        simp only [copySome, List.map_cons]
+        have hr' : ∀ x ∈ r, x < (w.allocAtom (w.pay a) (w.alat a)).nextA := by
+          intro x h; have := hr x h; simp only [allocAtom_nextA]; omega
+        rw [ih _ fr hr']
+        have h1 := ((copySome_frame (w.allocAtom (w.pay a) (w.alat a)) r fr).2.2.2.2 w.nextA (by simp)).1
+        rw [h1]
+        simp only [allocAtom_pay, if_true, List.cons.injEq, true_and]
+        apply List.map_congr_left
+        intro x h
+        have : x ≠ w.nextA := by have := hr x h; omega
+        rw [allocAtom_pay]; simp [this]
+
+/-- every materialised atom is either taken over as it is or freshly allocated -/
+theorem copySome_mem (w : World) (xs : List Nat) (fl : List Bool) :
+    ∀ y ∈ (w.copySome xs fl).2, y ∈ keptOf xs fl ∨ (w.nextA ≤ y ∧ y < (w.copySome xs fl).1.nextA) := by
+  induction xs generalizing w fl with
+  | nil => simp [copySome]
+  | cons a r ih =>
+    cases fl with
+    | nil =>
+      simp only [copySome, keptOf, List.mem_cons]
+      intro y hy
+      rcases hy with hy | hy
+      · exact Or.inl (Or.inl hy)
+      · rcases ih w [] y hy with h | h
+        · exact Or.inl (Or.inr h)
+        · exact Or.inr h
+    | cons b fr =>
+      cases b with
+      | false =>
+        simp only [copySome, keptOf, List.mem_cons]
+        intro y hy
+        rcases hy with hy | hy
+        · exact Or.inl (Or.inl hy)
+        · rcases ih w fr y hy with h | h
+          · exact Or.inl (Or.inr h)
+          · exact Or.inr h
+      | true =>
+        simp only [copySome, keptOf, List.mem_cons]
+        intro y hy
+        have hmono := (copySome_frame (w.allocAtom (w.pay a) (w.alat a)) r fr).2.2.2.1
+        simp only [allocAtom_nextA] at hmono
+        rcases hy with hy | hy
+        · exact Or.inr ⟨by omega, by omega⟩
+        · rcases ih (w.allocAtom (w.pay a) (w.alat a)) fr y hy with h | h
+          · exact Or.inl h
+          · refine Or.inr ⟨?_, h.2⟩
+            have := h.1; simp only [allocAtom_nextA] at this; omega
+
+theorem keptOf_allTrue (xs : List Nat) : keptOf xs (allTrue xs) = [] := by
+  induction xs with
+  | nil => rfl
+  | cons a r ih => simpa [keptOf, allTrue] using ih
+
+theorem keptOf_subset (xs : List Nat) (fl : List Bool) : ∀ y ∈ keptOf xs fl, y ∈ xs := by
+  induction xs generalizing fl with
+  | nil => simp [keptOf]
+  | cons a r ih =>
+    cases fl with
+    | nil =>
+      simp only [keptOf, List.mem_cons]
+      intro y hy
+      rcases hy with hy | hy
+      · exact Or.inl hy
+      · exact Or.inr (ih [] y hy)
+    | cons b fr =>
+      cases b with
+      | false =>
+        simp only [keptOf, List.mem_cons]
+        intro y hy
+        rcases hy with hy | hy
+        · exact Or.inl hy
+        · exact Or.inr (ih fr y hy)
+      | true =>
+        simp only [keptOf, List.mem_cons]
+        intro y hy
+        exact Or.inr (ih fr y hy)
+
+theorem copySome_lt (w : World) (xs : List Nat) (fl : List Bool) (hx : ∀ x ∈ xs, x < w.nextA) :
+    ∀ y ∈ (w.copySome xs fl).2, y < (w.copySome xs fl).1.nextA := by
+  intro y hy
+  rcases copySome_mem w xs fl y hy with h | h
+  · have := hx y (keptOf_subset xs fl y h)
+    have := (copySome_frame w xs fl).2.2.2.1
+    omega
+  · exact h.2
+
+
+/-! #### the stages of `prep` -/
+
+def w0 (w : World) (p : Plan Nat) : World := match p.pre with
+  | some (h, xs) => w.setLats xs (w.latOf h)
+  | none => w
+
+def w1 (w : World) (p : Plan Nat) : World := match p.tgt with
+  | .old _ => w0 w p
+  | .new .fresh => ((w0 w p).pushStru (w0 w p).nextL).newLat
+  | .new (.ofStru h') => (w0 w p).pushStru ((w0 w p).latOf h')
+
+def hT (w : World) (p : Plan Nat) : Nat := match p.tgt with
+  | .old h => h
+  | .new _ => w.strus.length
+
+theorem w0_frame (w : World) (p : Plan Nat) :
+    (w0 w p).pay = w.pay ∧ (w0 w p).nextA = w.nextA ∧ (w0 w p).nextL = w.nextL ∧ (w0 w p).pool = w.pool ∧
+    (w0 w p).strus = w.strus := by
+  unfold w0
+  split <;> simp [setLats]
+
+theorem w0_latOf (w : World) (p : Plan Nat) (h : Nat) : (w0 w p).latOf h = w.latOf h := by
+  simp [latOf, (w0_frame w p).2.2.2.2]
+
+theorem w1_frame (w : World) (p : Plan Nat) :
+    (w1 w p).pay = w.pay ∧ (w1 w p).alat = (w0 w p).alat ∧ (w1 w p).nextA = w.nextA ∧ w.nextL ≤ (w1 w p).nextL ∧
+    (w1 w p).pool = w.pool ∧
+    (w1 w p).strus = (match p.tgt with
+      | .old _ => w.strus
+      | .new .fresh => w.strus ++ [⟨[], w.nextL, true⟩]
+      | .new (.ofStru h') => w.strus ++ [⟨[], w.latOf h', true⟩]) := by
+  obtain ⟨h1, h2, h3, h4, h5⟩ := w0_frame w p
+  unfold w1
+  split
+  · simp [h1, h2, h3, h4, h5]
+  · simp [pushStru, newLat, h1, h2, h3, h4, h5]
+  · simp [pushStru, h1, h2, h3, h4, h5, w0_latOf]
+
+theorem prep_eq (w : World) (p : Plan Nat) :
+    w.prep p = (((w1 w p).copySome p.inc p.flags).1.setLats ((w1 w p).copySome p.inc p.flags).2 ((w1 w p).latOf (hT w p)),
+                hT w p, ((w1 w p).copySome p.inc p.flags).2) := by
+  obtain ⟨tgt, pre, inc, flags, edit⟩ := p
+  cases pre with
+  | none => rfl
+  | some q => obtain ⟨h, xs⟩ := q; cases tgt <;> rfl
+
+theorem Wf_w1 {w : World} (hw : Wf w) (p : Plan Nat) : Wf (w1 w p) := by
+  obtain ⟨h1, _, h3, h4, h5, h6⟩ := w1_frame w p
+  constructor
+  · intro s hs a ha
+    rw [h3]
+    rw [h6] at hs
+    split at hs
+    · exact hw.atoms s hs a ha
+    · simp only [List.mem_append, List.mem_singleton] at hs
+      rcases hs with hs | hs
+      · exact hw.atoms s hs a ha
+      · subst hs; simp at ha
+    · simp only [List.mem_append, List.mem_singleton] at hs
+      rcases hs with hs | hs
+      · exact hw.atoms s hs a ha
+      · subst hs; simp at ha
+  · intro a ha; rw [h3]; rw [h5] at ha; exact hw.pool a ha
+  · intro s hs
+    rw [h6] at hs
+    unfold w1
+    obtain ⟨_, _, g3, _, _⟩ := w0_frame w p
+    split at hs
+    · rename_i heq; simp only [heq, g3]; exact hw.lats s hs
+    · rename_i heq
+      simp only [heq, pushStru, newLat, g3]
+      simp only [List.mem_append, List.mem_singleton] at hs
+      rcases hs with hs | hs
+      · have := hw.lats s hs; omega
+      · subst hs; simp
+    · rename_i h' heq
+      simp only [heq, pushStru, g3]
+      simp only [List.mem_append, List.mem_singleton] at hs
+      rcases hs with hs | hs
+      · exact hw.lats s hs
+      · subst hs
+        simp only [latOf]
+        split
+        · rename_i t ht; exact hw.lats t (List.mem_of_getElem? ht)
+        · exact hw.lpos
+  · have := hw.lpos; omega
+
+
+theorem prep_strus (w : World) (p : Plan Nat) :
+    (w.prep p).1.strus = (w1 w p).strus ∧ (w.prep p).1.pool = w.pool ∧ (w.prep p).1.nextL = (w1 w p).nextL ∧
+    w.nextA ≤ (w.prep p).1.nextA ∧ (w.prep p).2.1 = hT w p ∧
+    (w.prep p).2.2 = ((w1 w p).copySome p.inc p.flags).2 := by
+  rw [prep_eq]
+  obtain ⟨f1, f2, f3, f4, _⟩ := copySome_frame (w1 w p) p.inc p.flags
+  obtain ⟨_, _, g3, _, g5, _⟩ := w1_frame w p
+  refine ⟨f1, by simp [setLats, f2, g5], f3, ?_, rfl, rfl⟩
+  simp only [setLats]; omega
+
+theorem prep_pay (w : World) (p : Plan Nat) :
+    ∀ i, i < w.nextA → (w.prep p).1.pay i = w.pay i := by
+  intro i hi
+  rw [prep_eq]
+  obtain ⟨g1, _, g3, _⟩ := w1_frame w p
+  have := ((copySome_frame (w1 w p) p.inc p.flags).2.2.2.2 i (by omega)).1
+  simp only [setLats, this, g1]
+
+theorem prep_inc_pay (w : World) (p : Plan Nat) (hinc : ∀ x ∈ p.inc, x < w.nextA) :
+    (w.prep p).2.2.map (w.prep p).1.pay = p.inc.map w.pay := by
+  rw [prep_eq]
+  obtain ⟨g1, _, g3, _⟩ := w1_frame w p
+  have := copySome_pay (w1 w p) p.inc p.flags (by intro x hx; rw [g3]; exact hinc x hx)
+  simp only [setLats, this, g1]
+
+theorem prep_inc_lt (w : World) (p : Plan Nat) (hinc : ∀ x ∈ p.inc, x < w.nextA) :
+    ∀ y ∈ (w.prep p).2.2, y < (w.prep p).1.nextA := by
+  rw [prep_eq]
+  obtain ⟨_, _, g3, _⟩ := w1_frame w p
+  exact copySome_lt (w1 w p) p.inc p.flags (by intro x hx; rw [g3]; exact hinc x hx)
+
+theorem prep_wf {w : World} (hw : Wf w) (p : Plan Nat) : Wf (w.prep p).1 := by
+  have h1 := Wf_w1 hw p
+  obtain ⟨e1, e2, e3, e4, _, _⟩ := prep_strus w p
+  obtain ⟨_, _, g3, _, g5, _⟩ := w1_frame w p
+  constructor
+  · intro s hs a ha
+    rw [e1] at hs
+    have := h1.atoms s hs a ha
+    omega
+  · intro a ha
+    rw [e2] at ha
+    have := hw.pool a ha
+    omega
+  · intro s hs
+    rw [e1] at hs
+    rw [e3]
+    exact h1.lats s hs
+  · rw [e3]; exact h1.lpos
+
+theorem mem_setAtoms {w : World} {h : Nat} {l : List Nat} {s : Stru} (hs : s ∈ (w.setAtoms h l).strus) :
+    s ∈ w.strus ∨ ∃ t ∈ w.strus, s = { t with atoms := l } := by
+  simp only [setAtoms] at hs
+  exact mem_updAt hs
+
+theorem Wf_setAtoms {w : World} (hw : Wf w) (h : Nat) (l : List Nat) (hl : ∀ a ∈ l, a < w.nextA) :
+    Wf (w.setAtoms h l) := by
+  constructor
+  · intro s hs a ha
+    rcases mem_setAtoms hs with h1 | ⟨t, _, rfl⟩
+    · exact hw.atoms s h1 a ha
+    · exact hl a ha
+  · exact hw.pool
+  · intro s hs
+    rcases mem_setAtoms hs with h1 | ⟨t, ht, rfl⟩
+    · exact hw.lats s h1
+    · exact hw.lats t ht
+  · exact hw.lpos
+
+theorem atomsOf_mem {w : World} {h : Nat} {a : Nat} (ha : a ∈ w.atomsOf h) :
+    ∃ s ∈ w.strus, s.live = true ∧ a ∈ s.atoms ∧ w.strus[h]? = some s := by
+  simp only [atomsOf] at ha
+  split at ha
+  · rename_i s hs
+    split at ha
+    · rename_i hl; exact ⟨s, List.mem_of_getElem? hs, hl, ha, hs⟩
+    · simp at ha
+  · simp at ha
+
+theorem atomsOf_lt {w : World} (hw : Wf w) (h : Nat) : ∀ a ∈ w.atomsOf h, a < w.nextA := by
+  intro a ha
+  obtain ⟨s, hs, _, has, _⟩ := atomsOf_mem ha
+  exact hw.atoms s hs a has
+
+/-- the precondition of `exec`: every id the action mentions has been allocated -/
+abbrev ActOk (w : World) (act : Act Nat) : Prop := ActAll (fun a => a < w.nextA) act
+
+theorem execPlan_wf {w : World} (hw : Wf w) (p : Plan Nat) (hinc : ∀ x ∈ p.inc, x < w.nextA) :
+    Wf (w.execPlan p).1 := by
+  simp only [execPlan]
+  have hq := prep_wf hw p
+  split
+  · rename_i new ret heq
+    apply Wf_setAtoms hq
+    intro a ha
+    rcases (Edit.apply_subset heq).1 a ha with h1 | h1
+    · exact atomsOf_lt hq _ a h1
+    · exact prep_inc_lt w p hinc a h1
+  · exact hq
+
+
+theorem view_all {w : World} (hw : Wf w) : ViewAll (fun a => a < w.nextA) w.view := by
+  constructor
+  · intro l hl a ha
+    simp only [view, List.mem_map] at hl
+    obtain ⟨s, hs, hsl⟩ := hl
+    split at hsl
+    · cases hsl; exact hw.atoms s hs a ha
+    · cases hsl
+  · exact hw.pool
+
+theorem latOf_lt {w : World} (hw : Wf w) (h : Nat) : w.latOf h < w.nextL := by
+  simp only [latOf]
+  split
+  · rename_i s hs; exact hw.lats s (List.mem_of_getElem? hs)
+  · exact hw.lpos
+
+theorem Wf_allocAtom {w : World} (hw : Wf w) (p L : Nat) : Wf (w.allocAtom p L) := by
+  constructor
+  · intro s hs a ha
+    have := hw.atoms s hs a ha
+    simp only [allocAtom_nextA]; omega
+  · intro a ha
+    have := hw.pool a ha
+    simp only [allocAtom_nextA]; omega
+  · exact hw.lats
+  · exact hw.lpos
+
+theorem dedup_subset (xs seen : List Nat) : ∀ a ∈ dedup xs seen, a ∈ xs := by
+  induction xs generalizing seen with
+  | nil => simp [dedup]
+  | cons b r ih =>
+    intro a ha
+    simp only [dedup] at ha
+    split at ha
+    · exact List.mem_cons_of_mem _ (ih _ a ha)
+    · simp only [List.mem_cons] at ha
+      rcases ha with ha | ha
+      · simp [ha]
+      · exact List.mem_cons_of_mem _ (ih _ a ha)
+
+theorem exec_wf {w : World} (hw : Wf w) (act : Act Nat) (hok : ActOk w act) : Wf (w.exec act).1 := by
+  cases act with
+  | plan p => exact execPlan_wf hw p hok.1
+  | retAtom a h => exact hw
+  | mkAtom p =>
+    simp only [exec]
+    have h1 := Wf_allocAtom hw p 0
+    constructor
+    · exact h1.atoms
+    · intro a ha
+      simp only [List.mem_append, List.mem_singleton] at ha
+      rcases ha with ha | ha
+      · exact h1.pool a ha
+      · subst ha; simp
+    · exact h1.lats
+    · exact h1.lpos
+  | addNew h p =>
+    simp only [exec]
+    apply Wf_setAtoms (Wf_allocAtom hw p _)
+    intro a ha
+    simp only [List.mem_append, List.mem_singleton] at ha
+    simp only [allocAtom_nextA]
+    rcases ha with ha | ha
+    · have := atomsOf_lt hw h a ha; omega
+    · omega
+  | setLat h src =>
+    simp only [exec]
+    cases src with
+    | fresh =>
+      constructor
+      · intro s hs a ha
+        rcases mem_updAt hs with h1 | ⟨t, ht, rfl⟩
+        · exact hw.atoms s h1 a ha
+        · exact hw.atoms t ht a ha
+      · exact hw.pool
+      · intro s hs
+        simp only [setLats, newLat]
+        rcases mem_updAt hs with h1 | ⟨t, ht, rfl⟩
+        · have := hw.lats s h1; simp only [newLat] at h1; omega
+        · simp
+      · simp only [setLats, newLat]; omega
+    | ofStru h' =>
+      constructor
+      · intro s hs a ha
+        rcases mem_updAt hs with h1 | ⟨t, ht, rfl⟩
+        · exact hw.atoms s h1 a ha
+        · exact hw.atoms t ht a ha
+      · exact hw.pool
+      · intro s hs
+        rcases mem_updAt hs with h1 | ⟨t, ht, rfl⟩
+        · exact hw.lats s h1
+        · exact latOf_lt hw h'
+      · exact hw.lpos
+  | drop h =>
+    simp only [exec]
+    constructor
+    · intro s hs a ha
+      rcases mem_updAt hs with h1 | ⟨t, ht, rfl⟩
+      · exact hw.atoms s h1 a ha
+      · exact hw.atoms t ht a ha
+    · exact hw.pool
+    · intro s hs
+      rcases mem_updAt hs with h1 | ⟨t, ht, rfl⟩
+      · exact hw.lats s h1
+      · exact hw.lats t ht
+    · exact hw.lpos
+  | copyShape h xs =>
+    simp only [exec]
+    have hw1 : Wf ((w.pushStru w.nextL).newLat) := by
+      constructor
+      · intro s hs a ha
+        simp only [pushStru, newLat, List.mem_append, List.mem_singleton] at hs
+        rcases hs with hs | hs
+        · exact hw.atoms s hs a ha
+        · subst hs; simp at ha
+      · exact hw.pool
+      · intro s hs
+        simp only [pushStru, newLat, List.mem_append, List.mem_singleton] at hs ⊢
+        rcases hs with hs | hs
+        · have := hw.lats s hs; omega
+        · subst hs; simp
+      · simp only [pushStru, newLat]; omega
+    have hds : ∀ x ∈ dedup xs [], x < ((w.pushStru w.nextL).newLat).nextA :=
+      fun x hx => hok x (dedup_subset xs [] x hx)
+    obtain ⟨f1, f2, f3, f4, _⟩ := copySome_frame ((w.pushStru w.nextL).newLat) (dedup xs []) (allTrue (dedup xs []))
+    have hlt := copySome_lt ((w.pushStru w.nextL).newLat) (dedup xs []) (allTrue (dedup xs [])) hds
+    apply Wf_setAtoms
+    · constructor
+      · intro s hs a ha
+        simp only [setLats] at hs ⊢
+        rw [f1] at hs
+        have := hw1.atoms s hs a ha
+        omega
+      · intro a ha
+        simp only [setLats] at ha ⊢
+        rw [f2] at ha
+        have := hw1.pool a ha
+        omega
+      · intro s hs
+        simp only [setLats] at hs ⊢
+        rw [f1] at hs; rw [f3]
+        exact hw1.lats s hs
+      · simp only [setLats]; rw [f3]; exact hw1.lpos
+    · intro a ha
+      simp only [List.mem_filterMap] at ha
+      obtain ⟨x, _, hx⟩ := ha
+      simp only [setLats]
+      exact hlt a (List.mem_of_getElem? hx)
+
+theorem stepFull_wf {w : World} (hw : Wf w) (op : Op) : Wf (w.stepFull op).1 := by
+  simp only [stepFull]
+  split
+  · exact hw
+  · rename_i act hact
+    exact exec_wf hw act (planG_all (view_all hw) hact)
+
+theorem run_wf {w : World} (hw : Wf w) (ops : List Op) : Wf (w.run ops) := by
+  induction ops generalizing w with
+  | nil => exact hw
+  | cons op ops ih => exact ih (stepFull_wf hw op)
+
+theorem empty_wf : Wf World.empty := by
+  constructor <;> simp [World.empty]
+
+
+/-! #### refinement of the plain-list specification -/
+
+theorem abs_view (w : World) : ViewRel w.pay w.view (ListSpec.view w.abs) := by
+  constructor
+  · simp only [ListSpec.view, abs, view, List.map_map]
+    apply List.map_congr_left
+    intro s _
+    simp only [Function.comp]
+    split <;> rfl
+  · rfl
+  · intro a; rfl
+
+/-- `abs` only reads the payloads of allocated ids -/
+theorem abs_congr {w w' : World} (hw : Wf w) (hs : w'.strus = w.strus) (hp : w'.pool = w.pool)
+    (hpay : ∀ i, i < w.nextA → w'.pay i = w.pay i) : w'.abs = w.abs := by
+  simp only [abs, hs, hp, SpecState.mk.injEq]
+  constructor
+  · apply List.map_congr_left
+    intro a ha
+    exact hpay a (hw.pool a ha)
+  · apply List.map_congr_left
+    intro s hs'
+    split
+    · congr 1
+      apply List.map_congr_left
+      intro a ha
+      exact hpay a (hw.atoms s hs' a ha)
+    · rfl
+
+theorem listOf_abs (w : World) (h : Nat) : ListSpec.listOf w.abs h = (w.atomsOf h).map w.pay := by
+  simp only [ListSpec.listOf, abs, atomsOf, List.getElem?_map]
+  cases w.strus[h]? with
+  | none => rfl
+  | some s =>
+    simp only [Option.map_some]
+    split <;> simp_all
+
+theorem abs_setAtoms (w : World) (h : Nat) (l : List Nat) :
+    (w.setAtoms h l).abs = ListSpec.setList w.abs h (l.map w.pay) := by
+  simp only [abs, setAtoms, ListSpec.setList, SpecState.mk.injEq, true_and]
+  apply updAt_map
+  intro s
+  simp only
+  split <;> rfl
+
+inductive OutRel (w' : World) : Except Err Res → Except Err SRes → Prop
+  | none : OutRel w' (.ok .none) (.ok .none)
+  | atom (a h : Nat) : OutRel w' (.ok (.atom a h)) (.ok (.val (w'.pay a)))
+  | stru (h : Nat) : OutRel w' (.ok (.stru h)) (.ok (.list h))
+  | err (e : Err) : OutRel w' (.error e) (.error e)
+
+theorem abs_prep {w : World} (hw : Wf w) (p : Plan Nat) :
+    (w.prep p).1.abs = (match p.tgt with
+      | .old _ => w.abs
+      | .new _ => { w.abs with lists := w.abs.lists ++ [some []] }) := by
+  obtain ⟨e1, e2, _, _, _, _⟩ := prep_strus w p
+  obtain ⟨_, _, _, _, _, g6⟩ := w1_frame w p
+  have hpay := prep_pay w p
+  have hpool : List.map (w.prep p).1.pay w.pool = List.map w.pay w.pool :=
+    List.map_congr_left (fun a ha => hpay a (hw.pool a ha))
+  have hstr : List.map (fun s => if s.live = true then some (List.map (w.prep p).1.pay s.atoms) else none) w.strus
+      = List.map (fun s => if s.live = true then some (List.map w.pay s.atoms) else none) w.strus := by
+    apply List.map_congr_left
+    intro s hs
+    split
+    · congr 1
+      exact List.map_congr_left (fun a ha => hpay a (hw.atoms s hs a ha))
+    · rfl
+  cases htg : p.tgt with
+  | old h => simp only [htg] at g6; simp [abs, e1, e2, g6, hpool, hstr]
+  | new src =>
+    cases src with
+    | fresh => simp only [htg] at g6; simp [abs, e1, e2, g6, hpool, hstr]
+    | ofStru h' => simp only [htg] at g6; simp [abs, e1, e2, g6, hpool, hstr]
+
+def specS1 (s : SpecState) : Tgt → SpecState
+  | .old _ => s
+  | .new _ => { s with lists := s.lists ++ [some []] }
+
+def specH (s : SpecState) : Tgt → Nat
+  | .old h => h
+  | .new _ => s.lists.length
+
+def specFinish (s1 : SpecState) (h : Nat) (tgt : Tgt) : Except Err (List Nat × Option Nat) → SpecState × Except Err SRes
+  | .ok (new, ret) =>
+    (ListSpec.setList s1 h new,
+     .ok (match tgt, ret with
+          | .new _, _ => .list h
+          | .old _, some a => .val a
+          | .old _, none => .none))
+  | .error e => (s1, .error e)
+
+theorem spec_exec_plan (s : SpecState) (q : Plan Nat) :
+    ListSpec.exec s (.plan q) =
+      specFinish (specS1 s q.tgt) (specH s q.tgt) q.tgt
+        (q.edit.apply (ListSpec.listOf (specS1 s q.tgt) (specH s q.tgt)) q.inc) := by
+  simp only [ListSpec.exec, specFinish, specS1, specH]
+  cases q.tgt <;> rfl
+
+def worldFinish (q : World × Nat × List Nat) (tgt : Tgt) : Except Err (List Nat × Option Nat) → World × Except Err Res
+  | .ok (new, ret) =>
+    (q.1.setAtoms q.2.1 new,
+     .ok (match tgt, ret with
+          | .new _, _ => .stru q.2.1
+          | .old _, some a => .atom a q.2.1
+          | .old _, none => .none))
+  | .error e => (q.1, .error e)
+
+theorem execPlan_eq (w : World) (p : Plan Nat) :
+    w.execPlan p = worldFinish (w.prep p) p.tgt (p.edit.apply ((w.prep p).1.atomsOf (w.prep p).2.1) (w.prep p).2.2) := by
+  simp only [execPlan, worldFinish]
+  rcases hap : p.edit.apply ((w.prep p).1.atomsOf (w.prep p).2.1) (w.prep p).2.2 with e | ⟨new, ret⟩
+  · rfl
+  · simp only
+    cases p.tgt <;> cases ret <;> rfl
+
+theorem execPlan_refines {w : World} (hw : Wf w) (p q : Plan Nat) (hinc : ∀ x ∈ p.inc, x < w.nextA)
+    (ht : q.tgt = p.tgt) (hi : q.inc = p.inc.map w.pay) (he : q.edit = p.edit) :
+    (ListSpec.exec w.abs (.plan q)).1 = (w.execPlan p).1.abs ∧
+    OutRel (w.execPlan p).1 (w.execPlan p).2 (ListSpec.exec w.abs (.plan q)).2 := by
+  have hA := abs_prep hw p
+  have hC := prep_inc_pay w p hinc
+  obtain ⟨_, _, _, _, e5, _⟩ := prep_strus w p
+  have hlen : w.abs.lists.length = w.strus.length := by simp [abs]
+  have hs1 : specS1 w.abs q.tgt = (w.prep p).1.abs := by
+    rw [ht, hA]; cases p.tgt <;> rfl
+  have hh : specH w.abs q.tgt = (w.prep p).2.1 := by
+    rw [ht, e5]; simp only [specH, hT]; cases p.tgt <;> simp [hlen]
+  rw [spec_exec_plan, execPlan_eq, hs1, hh, he, hi, ← hC, listOf_abs, Edit.apply_map, ht]
+  cases hap : p.edit.apply ((w.prep p).1.atomsOf (w.prep p).2.1) (w.prep p).2.2 with
+  | error e => exact ⟨rfl, OutRel.err e⟩
+  | ok r =>
+    obtain ⟨new, ret⟩ := r
+    simp only [mapRes, specFinish, worldFinish]
+    refine ⟨(abs_setAtoms _ _ _).symm, ?_⟩
+    cases p.tgt with
+    | new src => exact OutRel.stru _
+    | old h =>
+      cases ret with
+      | none => exact OutRel.none
+      | some a => exact OutRel.atom a _
+
+theorem updAt_id {γ : Type} (l : List γ) (k : Nat) : updAt l k (fun x => x) = l := by
+  induction l generalizing k with
+  | nil => rfl
+  | cons a l ih => cases k <;> simp [updAt, ih]
+
+theorem updAt_append_length {γ : Type} (l : List γ) (a : γ) (g : γ → γ) :
+    updAt (l ++ [a]) l.length g = l ++ [g a] := by
+  induction l with
+  | nil => rfl
+  | cons b l ih => simp [updAt, ih]
+
+theorem dedup_complete (xs seen : List Nat) : ∀ x ∈ xs, x ∈ seen ∨ x ∈ dedup xs seen := by
+  induction xs generalizing seen with
+  | nil => simp
+  | cons b r ih =>
+    intro x hx
+    simp only [List.mem_cons] at hx
+    simp only [dedup]
+    split
+    · rename_i hb
+      rcases hx with hx | hx
+      · subst hx; exact Or.inl hb
+      · exact ih seen x hx
+    · rcases hx with hx | hx
+      · subst hx; exact Or.inr (by simp)
+      · rcases ih (b :: seen) x hx with h | h
+        · simp only [List.mem_cons] at h
+          rcases h with h | h
+          · subst h; exact Or.inr (by simp)
+          · exact Or.inl h
+        · exact Or.inr (by simp [h])
+
+theorem filterMap_map_eq {γ δ ε : Type} (g : γ → Option δ) (f : δ → ε) (k : γ → ε) (xs : List γ)
+    (h : ∀ x ∈ xs, ∃ y, g x = some y ∧ f y = k x) : (xs.filterMap g).map f = xs.map k := by
+  induction xs with
+  | nil => rfl
+  | cons a r ih =>
+    obtain ⟨y, hy, hf⟩ := h a (by simp)
+    simp only [List.filterMap_cons, hy, List.map_cons, hf]
+    rw [ih (fun x hx => h x (by simp [hx]))]
+
+/-- pickling with protocol 0/1: the copies carry the payloads of the originals, slot by slot -/
+theorem copyShape_pay (w1 : World) (xs : List Nat) (hx : ∀ x ∈ xs, x < w1.nextA) :
+    (xs.filterMap (fun x => (w1.copySome (dedup xs []) (allTrue (dedup xs []))).2[(dedup xs []).idxOf x]?)).map
+      (w1.copySome (dedup xs []) (allTrue (dedup xs []))).1.pay = xs.map w1.pay := by
+  have hds : ∀ x ∈ dedup xs [], x < w1.nextA := fun x h => hx x (dedup_subset xs [] x h)
+  have hpay := copySome_pay w1 (dedup xs []) (allTrue (dedup xs [])) hds
+  have hlen := copySome_length w1 (dedup xs []) (allTrue (dedup xs []))
+  apply filterMap_map_eq
+  intro x hxs
+  have hmem : x ∈ dedup xs [] := by
+    rcases dedup_complete xs [] x hxs with h | h
+    · simp at h
+    · exact h
+  have hi : (dedup xs []).idxOf x < (dedup xs []).length := List.idxOf_lt_length_of_mem hmem
+  have hi' : (dedup xs []).idxOf x < (w1.copySome (dedup xs []) (allTrue (dedup xs []))).2.length := by omega
+  refine ⟨(w1.copySome (dedup xs []) (allTrue (dedup xs []))).2[(dedup xs []).idxOf x], by simp [hi'], ?_⟩
+  have h1 := congrArg (fun l => l[(dedup xs []).idxOf x]?) hpay
+  simp only [List.getElem?_map, List.getElem?_eq_getElem hi, List.getElem?_eq_getElem hi', Option.map_some,
+    Option.some.injEq] at h1
+  rw [h1]
+  congr 1
+  exact List.getElem_idxOf hi
+
+theorem exec_refines {w : World} (hw : Wf w) {act act' : Act Nat} (hok : ActOk w act)
+    (hr : ActRel w.pay act act') :
+    (ListSpec.exec w.abs act').1 = (w.exec act).1.abs ∧
+    OutRel (w.exec act).1 (w.exec act).2 (ListSpec.exec w.abs act').2 := by
+  cases act with
+  | plan p =>
+    cases act' with
+    | plan q => obtain ⟨ht, hi, he⟩ := hr; exact execPlan_refines hw p q hok.1 ht hi he
+    | _ => exact hr.elim
+  | retAtom a h =>
+    cases act' with
+    | retAtom b h' =>
+      obtain ⟨rfl, rfl⟩ := hr
+      exact ⟨rfl, OutRel.atom a _⟩
+    | _ => exact hr.elim
+  | mkAtom p =>
+    cases act' with
+    | mkAtom p' =>
+      cases hr
+      refine ⟨?_, OutRel.none⟩
+      simp only [ListSpec.exec, exec, abs, List.map_append, List.map_cons, List.map_nil, SpecState.mk.injEq]
+      constructor
+      · congr 1
+        · apply List.map_congr_left
+          intro a ha
+          have := hw.pool a ha
+          rw [allocAtom_pay]; simp [show a ≠ w.nextA by omega]
+        · simp [allocAtom_pay]
+      · apply List.map_congr_left
+        intro s hs
+        split
+        · congr 1
+          apply List.map_congr_left
+          intro a ha
+          have := hw.atoms s hs a ha
+          rw [allocAtom_pay]; simp [show a ≠ w.nextA by omega]
+        · rfl
+    | _ => exact hr.elim
+  | addNew h p =>
+    cases act' with
+    | addNew h' p' =>
+      obtain ⟨rfl, rfl⟩ := hr
+      refine ⟨?_, OutRel.none⟩
+      simp only [ListSpec.exec, exec, abs_setAtoms, listOf_abs]
+      have h1 : (w.allocAtom p' (w.latOf h')).abs = w.abs :=
+        abs_congr hw rfl rfl (fun i hi => by rw [allocAtom_pay]; simp [show i ≠ w.nextA by omega])
+      rw [h1, List.map_append]
+      congr 2
+      · apply List.map_congr_left
+        intro a ha
+        have := atomsOf_lt hw h' a ha
+        rw [allocAtom_pay]; simp [show a ≠ w.nextA by omega]
+      · simp [allocAtom_pay]
+    | _ => exact hr.elim
+  | setLat h src =>
+    cases act' with
+    | setLat h' src' =>
+      obtain ⟨rfl, rfl⟩ := hr
+      refine ⟨?_, OutRel.none⟩
+      simp only [ListSpec.exec, exec, abs]
+      have key : ∀ (L : Nat) (ss : List Stru),
+          List.map (fun s => if s.live = true then some (List.map w.pay s.atoms) else none)
+            (updAt ss h' (fun s => { s with lat := L })) =
+          List.map (fun s => if s.live = true then some (List.map w.pay s.atoms) else none) ss := by
+        intro L ss
+        rw [updAt_map _ _ (fun x => x) (by intro s; rfl), updAt_id]
+      cases src' <;> simp [setLats, newLat, key]
+    | _ => exact hr.elim
+  | drop h =>
+    cases act' with
+    | drop h' =>
+      cases hr
+      refine ⟨?_, OutRel.none⟩
+      simp only [ListSpec.exec, exec, abs, ListSpec.dropList, SpecState.mk.injEq, true_and]
+      exact (updAt_map _ _ (fun _ => none) (by intro s; rfl) _ _).symm
+    | _ => exact hr.elim
+  | copyShape h xs =>
+    cases act' with
+    | copyShape h' ys =>
+      obtain ⟨rfl, rfl⟩ := hr
+      refine ⟨?_, ?_⟩
+      · simp only [ListSpec.exec, exec, abs_setAtoms]
+        have hw1 : Wf ((w.pushStru w.nextL).newLat) := by
+          have := exec_wf hw (.plan { tgt := .new .fresh, pre := none, inc := [], flags := [], edit := .replace })
+            (by simp [ActAll])
+          constructor
+          · intro s hs a ha
+            simp only [pushStru, newLat, List.mem_append, List.mem_singleton] at hs
+            rcases hs with hs | hs
+            · exact hw.atoms s hs a ha
+            · subst hs; simp at ha
+          · exact hw.pool
+          · intro s hs
+            simp only [pushStru, newLat, List.mem_append, List.mem_singleton] at hs ⊢
+            rcases hs with hs | hs
+            · have := hw.lats s hs; omega
+            · subst hs; simp
+          · simp only [pushStru, newLat]; omega
+        obtain ⟨f1, f2, _, _, f5⟩ := copySome_frame ((w.pushStru w.nextL).newLat) (dedup xs []) (allTrue (dedup xs []))
+        have habs : (((w.pushStru w.nextL).newLat.copySome (dedup xs []) (allTrue (dedup xs []))).1.setLats
+            (xs.filterMap (fun x => ((w.pushStru w.nextL).newLat.copySome (dedup xs []) (allTrue (dedup xs []))).2[(dedup xs []).idxOf x]?))
+            w.nextL).abs = ((w.pushStru w.nextL).newLat).abs :=
+          abs_congr hw1 f1 f2 (fun i hi => (f5 i hi).1)
+        rw [habs]
+        have hp := copyShape_pay ((w.pushStru w.nextL).newLat) xs hok
+        simp only [setLats]
+        rw [hp]
+        simp only [abs, pushStru, newLat, ListSpec.setList, List.map_append, List.map_cons, List.map_nil,
+          SpecState.mk.injEq, true_and]
+        have hl : (List.map (fun s => if s.live = true then some (List.map w.pay s.atoms) else none) w.strus).length
+            = w.strus.length := by simp
+        rw [← hl, updAt_append_length]
+        simp
+      · simp only [ListSpec.exec, exec, abs, List.length_map]
+        exact OutRel.stru _
+    | _ => exact hr.elim
+
+
+/-! #### the lattice invariant -/
+
+theorem mem_updAt_idx {γ : Type} {l : List γ} {k : Nat} {g : γ → γ} {s : γ} (h : s ∈ updAt l k g) :
+    s ∈ l ∨ ∃ t, l[k]? = some t ∧ s = g t := by
+  induction l generalizing k with
+  | nil => simp [updAt] at h
+  | cons a l ih =>
+    cases k with
+    | zero =>
+      simp only [updAt, List.mem_cons] at h
+      rcases h with h | h
+      · exact Or.inr ⟨a, by simp, h⟩
+      · exact Or.inl (by simp [h])
+    | succ k =>
+      simp only [updAt, List.mem_cons] at h
+      rcases h with h | h
+      · exact Or.inl (by simp [h])
+      · rcases ih h with h' | ⟨t, ht, e⟩
+        · exact Or.inl (by simp [h'])
+        · exact Or.inr ⟨t, by simpa using ht, e⟩
+
+/-- every atom of every live structure refers to that structure's lattice -/
+def Inv (w : World) : Prop := ∀ s ∈ w.strus, s.live = true → ∀ a ∈ s.atoms, w.alat a = s.lat
+
+/-- the atoms `xs` may be linked to lattice `L`: every live structure that holds one of them has lattice `L` -/
+def Adopts (w : World) (xs : List Nat) (L : Nat) : Prop :=
+  ∀ x ∈ xs, ∀ s ∈ w.strus, s.live = true → x ∈ s.atoms → s.lat = L
+
+/-- the lattice the incoming atoms of a plan are linked to -/
+def tgtLat (w : World) (p : Plan Nat) : Nat := match p.tgt with
+  | .old h => w.latOf h
+  | .new .fresh => w.nextL
+  | .new (.ofStru h') => w.latOf h'
+
+/-- side condition of the global lattice invariant, on the action and the *pre*-state: atoms taken
+over without copying, and the atoms of a structure whose lattice is re-assigned, are not held by a
+live structure with a different lattice -/
+def preSafe (w : World) : Option (Nat × List Nat) → Prop
+  | none => True
+  | some (h, xs) => Adopts w xs (w.latOf h)
+
+def latSrcOf (w : World) : LatSrc → Nat
+  | .fresh => w.nextL
+  | .ofStru h' => w.latOf h'
+
+def SafeAct (w : World) : Act Nat → Prop
+  | .plan p => preSafe w p.pre ∧ Adopts w (keptOf p.inc p.flags) (tgtLat w p)
+  | .setLat h src =>
+    ∀ a ∈ w.atomsOf h, ∀ sk ∈ w.strus.zipIdx, sk.2 ≠ h → sk.1.live = true → a ∈ sk.1.atoms → sk.1.lat = latSrcOf w src
+  | _ => True
+
+instance (w : World) (xs : List Nat) (L : Nat) : Decidable (Adopts w xs L) := by unfold Adopts; infer_instance
+
+instance (w : World) (o : Option (Nat × List Nat)) : Decidable (preSafe w o) := by
+  cases o with
+  | none => exact isTrue trivial
+  | some q => unfold preSafe; infer_instance
+
+instance (w : World) (act : Act Nat) : Decidable (SafeAct w act) := by
+  cases act <;> unfold SafeAct <;> infer_instance
+
+theorem w1_latOf_hT (w : World) (p : Plan Nat) : (w1 w p).latOf (hT w p) = tgtLat w p := by
+  obtain ⟨_, _, _, _, _, g6⟩ := w1_frame w p
+  simp only [latOf, g6, hT, tgtLat]
+  cases p.tgt with
+  | old h => rfl
+  | new src => cases src <;> simp
+
+theorem prep_alat (w : World) (p : Plan Nat) (i : Nat) :
+    (w.prep p).1.alat i = if i ∈ (w.prep p).2.2 then tgtLat w p
+      else ((w1 w p).copySome p.inc p.flags).1.alat i := by
+  rw [prep_eq, w1_latOf_hT]
+  rfl
+
+theorem w0_alat (w : World) (p : Plan Nat) (i : Nat) :
+    (w0 w p).alat i = match p.pre with
+      | some (h, xs) => if i ∈ xs then w.latOf h else w.alat i
+      | none => w.alat i := by
+  unfold w0
+  split <;> rfl
+
+theorem prep_latOf (w : World) (p : Plan Nat) (k : Nat) : (w.prep p).1.latOf k = (w1 w p).latOf k := by
+  simp only [latOf, (prep_strus w p).1]
+
+theorem prep_inv {w : World} (hw : Wf w) (hi : Inv w) (p : Plan Nat) (hs : SafeAct w (.plan p)) :
+    Inv (w.prep p).1 := by
+  obtain ⟨e1, _, _, _, _, e6⟩ := prep_strus w p
+  obtain ⟨_, g2, g3, _, _, g6⟩ := w1_frame w p
+  intro s hsm hl a ha
+  rw [e1, g6] at hsm
+  -- `s` is a structure of the old world (the pushed one has no atoms)
+  have hold : s ∈ w.strus := by
+    cases htg : p.tgt with
+    | old h => simpa [htg] using hsm
+    | new src =>
+      cases src with
+      | fresh =>
+        simp only [htg, List.mem_append, List.mem_singleton] at hsm
+        rcases hsm with h | h
+        · exact h
+        · subst h; simp at ha
+      | ofStru h' =>
+        simp only [htg, List.mem_append, List.mem_singleton] at hsm
+        rcases hsm with h | h
+        · exact h
+        · subst h; simp at ha
+  have halt : a < w.nextA := hw.atoms s hold a ha
+  rw [prep_alat]
+  split
+  · rename_i hin
+    rw [e6] at hin
+    rcases copySome_mem (w1 w p) p.inc p.flags a hin with h | h
+    · exact (hs.2 a h s hold hl ha).symm
+    · rw [g3] at h; omega
+  · rw [((copySome_frame (w1 w p) p.inc p.flags).2.2.2.2 a (by omega)).2, g2, w0_alat]
+    split
+    · rename_i h xs hpre
+      split
+      · rename_i hin
+        have h1 := hs.1
+        rw [hpre] at h1
+        exact (h1 a hin s hold hl ha).symm
+      · exact hi s hold hl a ha
+    · exact hi s hold hl a ha
+
+theorem atomsOf_of_getElem {w : World} {h : Nat} {t : Stru} (ht : w.strus[h]? = some t) (hl : t.live = true) :
+    w.atomsOf h = t.atoms := by
+  simp [atomsOf, ht, hl]
+
+theorem execPlan_inv {w : World} (hw : Wf w) (hi : Inv w) (p : Plan Nat) (hs : SafeAct w (.plan p)) :
+    Inv (w.execPlan p).1 := by
+  have hq := prep_inv hw hi p hs
+  rw [execPlan_eq]
+  rcases hap : p.edit.apply ((w.prep p).1.atomsOf (w.prep p).2.1) (w.prep p).2.2 with e | ⟨new, ret⟩
+  · exact hq
+  · simp only [worldFinish]
+    intro s hsm hl a ha
+    simp only [setAtoms] at hsm ⊢
+    rcases mem_updAt_idx hsm with h | ⟨t, ht, rfl⟩
+    · exact hq s h hl a ha
+    · simp only at hl ha ⊢
+      rcases (Edit.apply_subset hap).1 a ha with h1 | h1
+      · rw [atomsOf_of_getElem ht hl] at h1
+        exact hq t (List.mem_of_getElem? ht) hl a h1
+      · rw [prep_alat, if_pos h1, ← w1_latOf_hT, ← prep_latOf, (prep_strus w p).2.2.2.2.1.symm]
+        simp [latOf, ht]
+
+
+theorem mem_updAt_ne {γ : Type} {l : List γ} {k : Nat} {g : γ → γ} {s : γ} (h : s ∈ updAt l k g) :
+    (∃ j, j ≠ k ∧ l[j]? = some s) ∨ ∃ t, l[k]? = some t ∧ s = g t := by
+  obtain ⟨j, hj⟩ := List.getElem?_of_mem h
+  rw [getElem?_updAt] at hj
+  split at hj
+  · rename_i hjk
+    subst hjk
+    cases hlj : l[j]? with
+    | none => simp [hlj] at hj
+    | some t => simp [hlj] at hj; exact Or.inr ⟨t, rfl, hj.symm⟩
+  · rename_i hjk
+    exact Or.inl ⟨j, hjk, hj⟩
+
+theorem exec_inv {w : World} (hw : Wf w) (hi : Inv w) (act : Act Nat) (hok : ActOk w act) (hs : SafeAct w act) :
+    Inv (w.exec act).1 := by
+  cases act with
+  | plan p => exact execPlan_inv hw hi p hs
+  | retAtom a h => exact hi
+  | mkAtom p =>
+    intro s hsm hl a ha
+    simp only [exec] at hsm ⊢
+    have := hw.atoms s hsm a ha
+    rw [allocAtom_alat]
+    simp only [show a ≠ w.nextA by omega, if_false]
+    exact hi s hsm hl a ha
+  | addNew h p =>
+    intro s hsm hl a ha
+    simp only [exec, setAtoms] at hsm ⊢
+    rw [allocAtom_alat]
+    rcases mem_updAt_idx hsm with h1 | ⟨t, ht, rfl⟩
+    · have := hw.atoms s h1 a ha
+      simp only [show a ≠ w.nextA by omega, if_false]
+      exact hi s h1 hl a ha
+    · simp only [allocAtom_strus] at ht
+      simp only at hl ha ⊢
+      simp only [List.mem_append, List.mem_singleton] at ha
+      rcases ha with ha | ha
+      · rw [atomsOf_of_getElem ht hl] at ha
+        have := hw.atoms t (List.mem_of_getElem? ht) a ha
+        simp only [show a ≠ w.nextA by omega, if_false]
+        exact hi t (List.mem_of_getElem? ht) hl a ha
+      · subst ha
+        simp [latOf, ht]
+  | setLat h src =>
+    cases src with
+    | fresh =>
+      intro s hsm hl a ha
+      simp only [exec, setLats, newLat] at hsm ⊢
+      rcases mem_updAt_ne hsm with ⟨j, hj, hjs⟩ | ⟨t, ht, rfl⟩
+      · split
+        · rename_i hin
+          exact (hs a hin (s, j) (List.mk_mem_zipIdx_iff_getElem?.mpr hjs) hj hl ha).symm
+        · exact hi s (List.mem_of_getElem? hjs) hl a ha
+      · simp only at hl ha ⊢
+        rw [← atomsOf_of_getElem ht hl] at ha
+        simp [ha]
+    | ofStru h' =>
+      intro s hsm hl a ha
+      simp only [exec, setLats, newLat] at hsm ⊢
+      rcases mem_updAt_ne hsm with ⟨j, hj, hjs⟩ | ⟨t, ht, rfl⟩
+      · split
+        · rename_i hin
+          exact (hs a hin (s, j) (List.mk_mem_zipIdx_iff_getElem?.mpr hjs) hj hl ha).symm
+        · exact hi s (List.mem_of_getElem? hjs) hl a ha
+      · simp only at hl ha ⊢
+        rw [← atomsOf_of_getElem ht hl] at ha
+        simp [ha]
+  | drop h =>
+    intro s hsm hl a ha
+    simp only [exec] at hsm ⊢
+    rcases mem_updAt_idx hsm with h1 | ⟨t, ht, rfl⟩
+    · exact hi s h1 hl a ha
+    · simp at hl
+  | copyShape h xs =>
+    intro s hsm hl a ha
+    simp only [exec, setAtoms] at hsm ⊢
+    obtain ⟨f1, _, _, _, f5⟩ := copySome_frame ((w.pushStru w.nextL).newLat) (dedup xs []) (allTrue (dedup xs []))
+    have hfresh : ∀ y ∈ ((w.pushStru w.nextL).newLat.copySome (dedup xs []) (allTrue (dedup xs []))).2, w.nextA ≤ y := by
+      intro y hy
+      rcases copySome_mem _ _ _ y hy with h1 | h1
+      · rw [keptOf_allTrue] at h1; simp at h1
+      · exact h1.1
+    simp only [setLats] at hsm ⊢
+    rw [f1] at hsm
+    rcases mem_updAt_idx hsm with h1 | ⟨t, ht, rfl⟩
+    · simp only [pushStru, newLat, List.mem_append, List.mem_singleton] at h1
+      rcases h1 with h1 | h1
+      · have hlt := hw.atoms s h1 a ha
+        have hnot : a ∉ List.filterMap (fun x => ((w.pushStru w.nextL).newLat.copySome (dedup xs []) (allTrue (dedup xs []))).2[(dedup xs []).idxOf x]?) xs := by
+          intro hin
+          simp only [List.mem_filterMap] at hin
+          obtain ⟨x, _, hx⟩ := hin
+          have := hfresh a (List.mem_of_getElem? hx)
+          omega
+        simp only [hnot, if_false]
+        rw [(f5 a hlt).2]
+        exact hi s h1 hl a ha
+      · subst h1; simp at ha
+    · simp only [pushStru, newLat] at ht
+      have : t = ⟨[], w.nextL, true⟩ := by
+        simpa using ht.symm
+      subst this
+      simp only at ha ⊢
+      simp [ha]
+
+/-- the side condition of one step, on the pre-state -/
+def Safe (w : World) (op : Op) : Prop :=
+  match planG w.view op with
+  | .ok act => SafeAct w act
+  | .error _ => True
+
+theorem stepFull_inv {w : World} (hw : Wf w) (hi : Inv w) (op : Op) (hs : Safe w op) : Inv (w.stepFull op).1 := by
+  simp only [stepFull]
+  simp only [Safe] at hs
+  split
+  · exact hi
+  · rename_i act hact
+    rw [hact] at hs
+    exact exec_inv hw hi act (planG_all (view_all hw) hact) hs
+
+/-- every step of the history satisfies the side condition in the state it is executed in -/
+def SafeHist : World → List Op → Prop
+  | _, [] => True
+  | w, op :: ops => Safe w op ∧ SafeHist (w.stepFull op).1 ops
+
+theorem run_inv {w : World} (hw : Wf w) (hi : Inv w) (ops : List Op) (hs : SafeHist w ops) : Inv (w.run ops) := by
+  induction ops generalizing w with
+  | nil => exact hi
+  | cons op ops ih => exact ih (stepFull_wf hw op) (stepFull_inv hw hi op hs.1) hs.2
+
+
+/-! #### copies are fresh, selections share -/
+
+theorem copySome_allFalse (w : World) (xs : List Nat) : w.copySome xs (allFalse xs) = (w, xs) := by
+  induction xs with
+  | nil => rfl
+  | cons a r ih =>
+    simp only [allFalse, List.map_cons, copySome] at ih ⊢
+    rw [ih]
+
+theorem copySome_allTrue_fresh (w : World) (xs : List Nat) :
+    ∀ y ∈ (w.copySome xs (allTrue xs)).2, w.nextA ≤ y := by
+  intro y hy
+  rcases copySome_mem w xs (allTrue xs) y hy with h | h
+  · rw [keptOf_allTrue] at h; simp at h
+  · exact h.1
+
+theorem atomsOf_setAtoms_push (w : World) (ss : List Stru) (L : Nat) (l : List Nat) (hs : w.strus = ss ++ [⟨[], L, true⟩]) :
+    (w.setAtoms ss.length l).atomsOf ss.length = l ∧ (w.setAtoms ss.length l).latOf ss.length = L := by
+  simp only [atomsOf, latOf, setAtoms, hs, updAt_append_length]
+  simp
+
+/-- a plan that builds a new structure with a fresh lattice from copies only (`copy`, `+`, `-`, `*`,
+pickling, `deepcopy`): the result is the next handle, all its atoms and its lattice are fresh -/
+theorem execPlan_new_fresh (w : World) (p : Plan Nat) (ht : p.tgt = .new .fresh) (he : p.edit = .replace)
+    (hf : p.flags = allTrue p.inc) :
+    (w.execPlan p).2 = .ok (.stru w.strus.length) ∧
+    (∀ a ∈ (w.execPlan p).1.atomsOf w.strus.length, w.nextA ≤ a) ∧
+    (w.execPlan p).1.latOf w.strus.length = w.nextL ∧
+    ((w.execPlan p).1.atomsOf w.strus.length).map (w.execPlan p).1.pay = ((w.prep p).2.2).map (w.prep p).1.pay := by
+  obtain ⟨e1, _, _, _, e5, e6⟩ := prep_strus w p
+  obtain ⟨_, _, g3, _, _, g6⟩ := w1_frame w p
+  rw [execPlan_eq, he]
+  simp only [Edit.apply, worldFinish, ht]
+  have hh : (w.prep p).2.1 = w.strus.length := by rw [e5]; simp [hT, ht]
+  have hstr : (w.prep p).1.strus = w.strus ++ [⟨[], w.nextL, true⟩] := by rw [e1, g6, ht]
+  rw [hh]
+  obtain ⟨a1, a2⟩ := atomsOf_setAtoms_push (w.prep p).1 w.strus w.nextL (w.prep p).2.2 hstr
+  refine ⟨rfl, ?_, a2, ?_⟩
+  · rw [a1, e6, hf]
+    intro a ha
+    have := copySome_allTrue_fresh (w1 w p) p.inc a ha
+    omega
+  · rw [a1]; rfl
+
+/-- a plan that builds a selection (`s[slice]`, `s[array]`, …): the result holds exactly the
+selected atom objects and refers to the lattice of the source -/
+theorem execPlan_new_sel (w : World) (p : Plan Nat) (h : Nat) (ht : p.tgt = .new (.ofStru h)) (he : p.edit = .replace)
+    (hf : p.flags = allFalse p.inc) :
+    (w.execPlan p).2 = .ok (.stru w.strus.length) ∧
+    (w.execPlan p).1.atomsOf w.strus.length = p.inc ∧
+    (w.execPlan p).1.latOf w.strus.length = w.latOf h := by
+  obtain ⟨e1, _, _, _, e5, e6⟩ := prep_strus w p
+  obtain ⟨_, _, g3, _, _, g6⟩ := w1_frame w p
+  rw [execPlan_eq, he]
+  simp only [Edit.apply, worldFinish, ht]
+  have hh : (w.prep p).2.1 = w.strus.length := by rw [e5]; simp [hT, ht]
+  have hstr : (w.prep p).1.strus = w.strus ++ [⟨[], w.latOf h, true⟩] := by rw [e1, g6, ht]
+  rw [hh]
+  obtain ⟨a1, a2⟩ := atomsOf_setAtoms_push (w.prep p).1 w.strus (w.latOf h) (w.prep p).2.2 hstr
+  refine ⟨rfl, ?_, a2⟩
+  rw [a1, e6, hf, copySome_allFalse]
+
+/-- a plan that edits an existing structure with copies only: whatever is in the list afterwards was
+there before or is freshly allocated -/
+theorem execPlan_old_fresh {w : World} (hw : Wf w) (p : Plan Nat) (h : Nat) (ht : p.tgt = .old h)
+    (hf : p.flags = allTrue p.inc) :
+    ∀ a ∈ (w.execPlan p).1.atomsOf h, a ∈ w.atomsOf h ∨ w.nextA ≤ a := by
+  obtain ⟨e1, _, _, _, e5, e6⟩ := prep_strus w p
+  obtain ⟨_, _, g3, _, _, g6⟩ := w1_frame w p
+  have hh : (w.prep p).2.1 = h := by rw [e5]; simp [hT, ht]
+  have hstr : (w.prep p).1.strus = w.strus := by rw [e1, g6, ht]
+  have hat : (w.prep p).1.atomsOf h = w.atomsOf h := by simp [atomsOf, hstr]
+  rw [execPlan_eq]
+  rcases hap : p.edit.apply ((w.prep p).1.atomsOf (w.prep p).2.1) (w.prep p).2.2 with e | ⟨new, ret⟩
+  · simp only [worldFinish, hat]
+    intro a ha; exact Or.inl ha
+  · simp only [worldFinish, hh]
+    intro a ha
+    have hsub : a ∈ new := by
+      simp only [atomsOf, setAtoms, getElem?_updAt, if_true] at ha
+      cases hg : (w.prep p).1.strus[h]? with
+      | none => simp [hg] at ha
+      | some t =>
+        simp only [hg, Option.map_some] at ha
+        split at ha
+        · exact ha
+        · simp at ha
+    rw [hh] at hap
+    rcases (Edit.apply_subset hap).1 a hsub with h1 | h1
+    · rw [hat] at h1; exact Or.inl h1
+    · rw [e6, hf] at h1
+      have := copySome_allTrue_fresh (w1 w p) p.inc a h1
+      exact Or.inr (by omega)
+
+/-- the materialised atoms of a plan refer to the target's lattice afterwards, whether or not the
+list edit succeeds -/
+theorem execPlan_links (w : World) (p : Plan Nat) :
+    ∀ y ∈ (w.prep p).2.2, (w.execPlan p).1.alat y = tgtLat w p := by
+  intro y hy
+  rw [execPlan_eq]
+  rcases hap : p.edit.apply ((w.prep p).1.atomsOf (w.prep p).2.1) (w.prep p).2.2 with e | ⟨new, ret⟩
+  · simp only [worldFinish]; rw [prep_alat, if_pos hy]
+  · simp only [worldFinish, setAtoms]; rw [prep_alat, if_pos hy]
+
+
+theorem view_atoms_ok {w : World} {h : Nat} {old : List Nat} (hv : w.view.atoms h = .ok old) :
+    w.atomsOf h = old ∧ ∃ t, w.strus[h]? = some t ∧ t.live = true ∧ t.atoms = old := by
+  simp only [View.atoms, view, List.getElem?_map] at hv
+  cases hg : w.strus[h]? with
+  | none => simp [hg] at hv
+  | some t =>
+    simp only [hg, Option.map_some] at hv
+    by_cases hl : t.live = true
+    · simp only [hl, if_true] at hv
+      cases hv
+      exact ⟨by simp [atomsOf, hg, hl], t, rfl, hl, rfl⟩
+    · simp [hl] at hv
+
+/-- pickling with protocol 0/1 (`copyShape`): fresh atoms, fresh lattice -/
+theorem exec_copyShape_fresh (w : World) (h : Nat) (xs : List Nat) :
+    (w.exec (.copyShape h xs)).2 = .ok (.stru w.strus.length) ∧
+    (∀ a ∈ (w.exec (.copyShape h xs)).1.atomsOf w.strus.length, w.nextA ≤ a) ∧
+    (w.exec (.copyShape h xs)).1.latOf w.strus.length = w.nextL := by
+  simp only [exec]
+  obtain ⟨f1, _, _, _, _⟩ := copySome_frame ((w.pushStru w.nextL).newLat) (dedup xs []) (allTrue (dedup xs []))
+  have hstr : (((w.pushStru w.nextL).newLat.copySome (dedup xs []) (allTrue (dedup xs []))).1.setLats
+      (xs.filterMap (fun x => ((w.pushStru w.nextL).newLat.copySome (dedup xs []) (allTrue (dedup xs []))).2[(dedup xs []).idxOf x]?))
+      w.nextL).strus = w.strus ++ [⟨[], w.nextL, true⟩] := by
+    simp only [setLats, f1]; rfl
+  obtain ⟨a1, a2⟩ := atomsOf_setAtoms_push _ w.strus w.nextL
+    (xs.filterMap (fun x => ((w.pushStru w.nextL).newLat.copySome (dedup xs []) (allTrue (dedup xs []))).2[(dedup xs []).idxOf x]?)) hstr
+  refine ⟨trivial, ?_, a2⟩
+  rw [a1]
+  intro a ha
+  simp only [List.mem_filterMap] at ha
+  obtain ⟨x, _, hx⟩ := ha
+  have := copySome_allTrue_fresh ((w.pushStru w.nextL).newLat) (dedup xs []) a (List.mem_of_getElem? hx)
+  simpa [pushStru, newLat] using this
+
+
+/-! #### which operations need the side condition -/
+
+theorem adopts_nil (w : World) (L : Nat) : Adopts w [] L := by intro x hx; simp at hx
+
+theorem keptOf_allFalse (xs : List Nat) : keptOf xs (allFalse xs) = xs := by
+  induction xs with
+  | nil => rfl
+  | cons a r ih => simp only [allFalse, List.map_cons, keptOf] at ih ⊢; rw [ih]
+
+theorem keptOf_map (xs : List Nat) (g : Nat → Bool) : ∀ y ∈ keptOf xs (xs.map g), y ∈ xs ∧ g y = false := by
+  induction xs with
+  | nil => simp [keptOf]
+  | cons a r ih =>
+    intro y hy
+    simp only [List.map_cons] at hy
+    cases hg : g a with
+    | true =>
+      simp only [hg, keptOf] at hy
+      exact ⟨List.mem_cons_of_mem _ (ih y hy).1, (ih y hy).2⟩
+    | false =>
+      simp only [hg, keptOf, List.mem_cons] at hy
+      rcases hy with hy | hy
+      · subst hy; exact ⟨by simp, hg⟩
+      · exact ⟨List.mem_cons_of_mem _ (ih y hy).1, (ih y hy).2⟩
+
+/-- under the invariant, atoms of structure `h` may always be (re-)linked to `h`'s own lattice -/
+theorem inv_adopts_self {w : World} (hi : Inv w) {h : Nat} {xs : List Nat} (hx : ∀ x ∈ xs, x ∈ w.atomsOf h) :
+    Adopts w xs (w.latOf h) := by
+  intro x hxs s hs hl hxa
+  obtain ⟨t, ht, htl, hta, hg⟩ := atomsOf_mem (hx x hxs)
+  have h1 := hi t ht htl x hta
+  have h2 := hi s hs hl x hxa
+  simp only [latOf, hg]
+  rw [← h1, h2]
+
+theorem safe_plan_allTrue (w : World) (p : Plan Nat) (hp : p.pre = none) (hf : p.flags = allTrue p.inc) :
+    SafeAct w (.plan p) := by
+  refine ⟨by rw [hp]; trivial, ?_⟩
+  rw [hf, keptOf_allTrue]
+  exact adopts_nil w _
+
+theorem safe_plan_noinc (w : World) (p : Plan Nat) (hp : p.pre = none) (hf : p.inc = []) :
+    SafeAct w (.plan p) := by
+  refine ⟨by rw [hp]; trivial, ?_⟩
+  rw [hf]
+  exact adopts_nil w _
+
+/-- the operations whose side condition holds automatically: everything except lattice assignment
+and the insertions that take atoms over without copying (`copy=False`, and `extend` with the default
+flag and an iterable that is not a Structure) -/
+def AutoSafe : Op → Prop
+  | .setLat _ _ => False
+  | .append _ _ c => c ≠ .no
+  | .insert _ _ _ c => c ≠ .no
+  | .extend _ it c => c = .yes ∨ (c = .dflt ∧ ∃ h', it = .stru h')
+  | .setitem _ _ _ c => c = true
+  | .setslice _ _ _ c => c = true
+  | _ => True
+
+theorem safe_of_autoSafe {w : World} (hi : Inv w) {op : Op} (ha : AutoSafe op) : Safe w op := by
+  cases op with
+  | mkAtom p => simp [Safe, planG, SafeAct]
+  | mkStru => simp only [Safe, planG]; exact safe_plan_noinc w _ rfl rfl
+  | setLat h src => exact ha.elim
+  | addNew h p =>
+    rcases h1 : w.view.atoms h with e | old
+    · simp [Safe, planG, h1]
+    · simp only [Safe, planG, h1]
+      trivial
+  | append h a c =>
+    rcases h1 : w.view.atoms h with e | old
+    · simp [Safe, planG, h1]
+    · simp only [Safe, planG, h1]
+      rcases h2 : w.view.aref a with e | x
+      · simp [h2]
+      · simp only [h2]
+        apply safe_plan_allTrue w _ rfl
+        simp only [AutoSafe] at ha
+        simp [allTrue, ha]
+  | insert h i a c =>
+    rcases h1 : w.view.atoms h with e | old
+    · simp [Safe, planG, h1]
+    · simp only [Safe, planG, h1]
+      rcases h2 : w.view.aref a with e | x
+      · simp [h2]
+      · simp only [h2]
+        apply safe_plan_allTrue w _ rfl
+        simp only [AutoSafe] at ha
+        simp [allTrue, ha]
+  | extend h it c =>
+    rcases h1 : w.view.atoms h with e | old
+    · simp [Safe, planG, h1]
+    · simp only [Safe, planG, h1]
+      rcases h2 : w.view.iter it with e | ⟨xs, b⟩
+      · simp [h2]
+      · simp only [h2]
+        apply safe_plan_allTrue w _ rfl
+        simp only [AutoSafe] at ha
+        rcases ha with ha | ⟨ha, h', rfl⟩
+        · subst ha; rfl
+        · subst ha
+          simp only [View.iter] at h2
+          rcases h3 : w.view.atoms h' with e | l
+          · simp [h3] at h2
+          · simp only [h3, Except.ok.injEq, Prod.mk.injEq] at h2
+            obtain ⟨_, rfl⟩ := h2
+            rfl
+  | getitem h ix =>
+    rcases h1 : w.view.atoms h with e | old
+    · simp [Safe, planG, h1]
+    · simp only [Safe, planG, h1]
+      have hold := (view_atoms_ok h1).1
+      have hsel : ∀ idxs, SafeAct w (selPlan h (pick old idxs)) := by
+        intro idxs
+        refine ⟨trivial, ?_⟩
+        simp only [selPlan]
+        have : (List.map (fun _ => false) (pick old idxs)) = allFalse (pick old idxs) := rfl
+        rw [this, keptOf_allFalse]
+        simp only [tgtLat]
+        exact inv_adopts_self hi (fun x hx => by rw [hold]; exact pick_subset _ _ x hx)
+      cases ix with
+      | int i =>
+        simp only [planIndex]
+        rcases normIdx old.length i with _ | k
+        · trivial
+        · rcases hk : old[k]? with _ | a <;> simp [hk, SafeAct]
+      | label p =>
+        simp only [planIndex]
+        rcases findLabel w.view.lab old p with e | k
+        · trivial
+        · rcases hk : old[k]? with _ | a <;> simp [hk, SafeAct]
+      | slice sl =>
+        simp only [planIndex]
+        rcases sliceAdjust old.length sl with e | a
+        · trivial
+        · exact hsel _
+      | arr is =>
+        simp only [planIndex]
+        rcases mapE (normIdxE old.length) is with e | idxs
+        · trivial
+        · exact hsel _
+      | mask bs =>
+        simp only [planIndex]
+        by_cases hb : bs.length ≠ old.length ∧ bs ≠ []
+        · rw [if_pos hb]; trivial
+        · rw [if_neg hb]; exact hsel _
+      | tuple ks =>
+        simp only [planIndex]
+        by_cases hk : ks = []
+        · rw [if_pos hk]; trivial
+        · rw [if_neg hk]
+          rcases mapE (resolveKey w.view.lab old) ks with e | is
+          · trivial
+          · simp only
+            rcases mapE (normIdxE old.length) is with e | idxs
+            · trivial
+            · exact hsel _
+      | keys ks =>
+        simp only [planIndex]
+        rcases mapE (resolveKey w.view.lab old) ks with e | is
+        · trivial
+        · simp only
+          rcases mapE (normIdxE old.length) is with e | idxs
+          · trivial
+          · exact hsel _
+  | setitem h i a c =>
+    rcases h1 : w.view.atoms h with e | old
+    · simp [Safe, planG, h1]
+    · simp only [Safe, planG, h1]
+      rcases h2 : w.view.aref a with e | x
+      · simp [h2]
+      · simp only [h2]
+        apply safe_plan_allTrue w _ rfl
+        simp only [AutoSafe] at ha
+        simp [allTrue, ha]
+  | setslice h sl it c =>
+    rcases h1 : w.view.atoms h with e | old
+    · simp [Safe, planG, h1]
+    · simp only [Safe, planG, h1]
+      rcases h2 : w.view.iter it with e | ⟨xs, b⟩
+      · simp [h2]
+      · simp only [h2]
+        rcases h3 : sliceAdjust old.length sl with e | a
+        · trivial
+        · simp only [AutoSafe] at ha
+          subst ha
+          refine ⟨trivial, ?_⟩
+          simp only [if_true, tgtLat]
+          apply inv_adopts_self hi
+          intro x hx
+          have := (keptOf_map xs (fun x => decide (x ∉ pick old (sliceIdx a))) x hx).2
+          simp only [decide_eq_false_iff_not, Decidable.not_not] at this
+          rw [(view_atoms_ok h1).1]
+          exact pick_subset _ _ x this
+  | delitem h i =>
+    rcases h1 : w.view.atoms h with e | old
+    · simp [Safe, planG, h1]
+    · simp only [Safe, planG, h1]
+      exact safe_plan_noinc w _ rfl rfl
+  | delslice h sl =>
+    rcases h1 : w.view.atoms h with e | old
+    · simp [Safe, planG, h1]
+    · simp only [Safe, planG, h1]
+      exact safe_plan_noinc w _ rfl rfl
+  | add h it =>
+    rcases h1 : w.view.atoms h with e | old
+    · simp [Safe, planG, h1]
+    · simp only [Safe, planG, h1]
+      rcases h2 : w.view.iter it with e | ⟨xs, b⟩
+      · simp [h2]
+      · simp only [h2]
+        exact safe_plan_allTrue w _ rfl rfl
+  | iadd h it =>
+    rcases h1 : w.view.atoms h with e | old
+    · simp [Safe, planG, h1]
+    · simp only [Safe, planG, h1]
+      rcases h2 : w.view.iter it with e | ⟨xs, b⟩
+      · simp [h2]
+      · simp only [h2]
+        exact safe_plan_allTrue w _ rfl rfl
+  | sub h it =>
+    rcases h1 : w.view.atoms h with e | old
+    · simp [Safe, planG, h1]
+    · simp only [Safe, planG, h1]
+      rcases h2 : w.view.iter it with e | ⟨xs, b⟩
+      · simp [h2]
+      · simp only [h2]
+        refine ⟨?_, ?_⟩
+        · simp only [preSafe]
+          apply inv_adopts_self hi
+          intro x hx
+          rw [(view_atoms_ok h1).1]
+          exact (List.mem_filter.mp hx).1
+        · simp only [keptOf_allTrue]
+          exact adopts_nil w _
+  | isub h it =>
+    rcases h1 : w.view.atoms h with e | old
+    · simp [Safe, planG, h1]
+    · simp only [Safe, planG, h1]
+      rcases h2 : w.view.iter it with e | ⟨xs, b⟩
+      · simp [h2]
+      · simp only [h2]
+        refine ⟨trivial, ?_⟩
+        simp only [keptOf_allFalse, tgtLat]
+        apply inv_adopts_self hi
+        intro x hx
+        rw [(view_atoms_ok h1).1]
+        exact (List.mem_filter.mp hx).1
+  | mul h n =>
+    rcases h1 : w.view.atoms h with e | old
+    · simp [Safe, planG, h1]
+    · simp only [Safe, planG, h1]
+      refine ⟨?_, ?_⟩
+      · simp only [preSafe]; exact adopts_nil w _
+      · simp only [keptOf_allTrue]; exact adopts_nil w _
+  | imul h n =>
+    rcases h1 : w.view.atoms h with e | old
+    · simp [Safe, planG, h1]
+    · simp only [Safe, planG, h1]
+      by_cases hn : n ≤ 0
+      · rw [if_pos hn]; exact safe_plan_noinc w _ rfl rfl
+      · rw [if_neg hn]; exact safe_plan_allTrue w _ rfl rfl
+  | copy h =>
+    rcases h1 : w.view.atoms h with e | old
+    · simp [Safe, planG, h1]
+    · simp only [Safe, planG, h1]
+      exact safe_plan_allTrue w _ rfl rfl
+  | pickle h k =>
+    rcases h1 : w.view.atoms h with e | old
+    · simp [Safe, planG, h1]
+    · simp only [Safe, planG, h1]
+      by_cases hk : 2 ≤ k
+      · rw [if_pos hk]; exact safe_plan_allTrue w _ rfl rfl
+      · rw [if_neg hk]; trivial
+  | deepcopy h =>
+    rcases h1 : w.view.atoms h with e | old
+    · simp [Safe, planG, h1]
+    · simp only [Safe, planG, h1]
+      exact safe_plan_allTrue w _ rfl rfl
+  | pop h i =>
+    rcases h1 : w.view.atoms h with e | old
+    · simp [Safe, planG, h1]
+    · simp only [Safe, planG, h1]
+      exact safe_plan_noinc w _ rfl rfl
+  | remove h a =>
+    rcases h1 : w.view.atoms h with e | old
+    · simp [Safe, planG, h1]
+    · simp only [Safe, planG, h1]
+      rcases h2 : w.view.aref a with e | x
+      · simp [h2]
+      · simp only [h2]
+        rcases idxOfE x old 0 with e | k
+        · trivial
+        · exact safe_plan_noinc w _ rfl rfl
+  | reverse h =>
+    rcases h1 : w.view.atoms h with e | old
+    · simp [Safe, planG, h1]
+    · simp only [Safe, planG, h1]
+      exact safe_plan_noinc w _ rfl rfl
+  | sort h =>
+    rcases h1 : w.view.atoms h with e | old
+    · simp [Safe, planG, h1]
+    · simp only [Safe, planG, h1]
+      exact safe_plan_noinc w _ rfl rfl
+  | clear h =>
+    rcases h1 : w.view.atoms h with e | old
+    · simp [Safe, planG, h1]
+    · simp only [Safe, planG, h1]
+      exact safe_plan_noinc w _ rfl rfl
+  | drop h =>
+    rcases h1 : w.view.atoms h with e | old
+    · simp [Safe, planG, h1]
+    · simp only [Safe, planG, h1]
+      trivial
+
+instance (w : World) (op : Op) : Decidable (Safe w op) := by
+  unfold Safe
+  cases planG w.view op <;> infer_instance
+
+instance decSafeHist : (w : World) → (ops : List Op) → Decidable (SafeHist w ops)
+  | _, [] => isTrue trivial
+  | w, op :: ops => @instDecidableAnd _ _ _ (decSafeHist (w.stepFull op).1 ops)
+
+
+end World
+
+/-! #### no atom in two slots -/
+
+section NodupLists
+variable {α : Type}
+
+theorem nodup_mid {a c ys : List α} (hac : (a ++ c).Nodup) (hy : ys.Nodup) (hd : ∀ y ∈ ys, y ∉ a ++ c) :
+    (a ++ ys ++ c).Nodup := by
+  simp only [List.nodup_append, List.mem_append] at hac hd ⊢
+  obtain ⟨ha, hc, hac'⟩ := hac
+  refine ⟨⟨ha, hy, ?_⟩, hc, ?_⟩
+  · intro x hx y hyy e; subst e; exact hd x hyy (Or.inl hx)
+  · intro x hx y hyc e
+    subst e
+    rcases hx with hx | hx
+    · exact hac' x hx x hyc rfl
+    · exact hd x hx (Or.inr hyc)
+
+theorem dropIdx_sublist (idxs : List Nat) (l : List α) (k : Nat) : (dropIdx idxs l k).Sublist l := by
+  induction l generalizing k with
+  | nil => simp [dropIdx]
+  | cons b l ih =>
+    simp only [dropIdx]
+    split
+    · exact List.Sublist.cons _ (ih _)
+    · exact List.Sublist.cons₂ _ (ih _)
+
+theorem take_drop_sublist (l : List α) (a b : Nat) (hab : a ≤ b) : (l.take a ++ l.drop b).Sublist l := by
+  have h1 : l = l.take a ++ l.drop a := (List.take_append_drop a l).symm
+  have h2 : (l.drop b).Sublist (l.drop a) := by
+    have : l.drop b = (l.drop a).drop (b - a) := by rw [List.drop_drop]; congr 1; omega
+    rw [this]; exact List.drop_sublist _ _
+  calc (l.take a ++ l.drop b).Sublist (l.take a ++ l.drop a) := List.Sublist.append_left h2 _
+    _ = l := h1.symm
+
+theorem pick_nodup [DecidableEq α] (l : List α) (idxs : List Nat) (hl : l.Nodup) (hi : idxs.Nodup) : (pick l idxs).Nodup := by
+  induction idxs with
+  | nil => simp [pick]
+  | cons i is ih =>
+    simp only [List.nodup_cons] at hi
+    simp only [pick, List.filterMap_cons]
+    cases hg : l[i]? with
+    | none => exact ih hi.2
+    | some a =>
+      simp only [List.nodup_cons]
+      refine ⟨?_, ih hi.2⟩
+      intro hmem
+      simp only [List.mem_filterMap] at hmem
+      obtain ⟨j, hj, hja⟩ := hmem
+      have hil : i < l.length := by
+        rcases Nat.lt_or_ge i l.length with h | h
+        · exact h
+        · simp [List.getElem?_eq_none h] at hg
+      have : i = j := (List.getElem?_inj hil hl).mp (by rw [hg, hja])
+      subst this
+      exact hi.1 hj
+
+theorem insertByKey_perm (keys : List Nat) (i : Nat) (l : List Nat) : (insertByKey keys i l).Perm (i :: l) := by
+  induction l with
+  | nil => simp [insertByKey]
+  | cons j r ih =>
+    simp only [insertByKey]
+    split
+    · exact List.Perm.refl _
+    · exact (List.Perm.cons j ih).trans (List.Perm.swap i j r)
+
+theorem foldl_insertByKey_perm (keys : List Nat) (is acc : List Nat) :
+    (is.foldl (fun acc i => insertByKey keys i acc) acc).Perm (is.reverse ++ acc) := by
+  induction is generalizing acc with
+  | nil => simp
+  | cons i is ih =>
+    simp only [List.foldl_cons, List.reverse_cons, List.append_assoc, List.singleton_append]
+    exact (ih _).trans (List.Perm.append_left _ (insertByKey_perm keys i acc))
+
+theorem sortIdx_nodup (keys : List Nat) : (sortIdx keys).Nodup := by
+  have h := foldl_insertByKey_perm keys (List.range keys.length) []
+  simp only [List.append_nil] at h
+  have h2 : (List.range keys.length).reverse.Nodup := by
+    rw [List.Nodup, List.pairwise_reverse]
+    have := @List.nodup_range keys.length
+    simp only [List.Nodup] at this
+    exact this.imp (fun h => Ne.symm h)
+  exact h.symm.nodup h2
+
+/-- the old members that stay in place when an edit inserts new elements -/
+def remain : Edit → List α → List α
+  | .append, old => old
+  | .insert _, old => old
+  | .setInt i, old => match normIdx old.length i with
+    | some k => old.eraseIdx k
+    | none => old
+  | .setSlice sl, old => match sliceAdjust old.length sl with
+    | .ok a => old.take a.1.toNat ++ old.drop (max a.2.1 a.1).toNat
+    | .error _ => old
+  | .replace, _ => []
+  | _, old => old
+
+/-- the edits covered by `no_alias_partial`: everything except the assignment to an *extended*
+slice (step ≠ 1) and an arbitrary permutation that repeats an index -/
+def plainSlice (n : Nat) (sl : Slice) : Bool := match sliceAdjust n sl with
+  | .ok a => a.2.2 == 1
+  | .error _ => true
+
+def CoreEdit : Edit → Nat → Prop
+  | .setSlice sl, n => plainSlice n sl = true
+  | .permute idxs, _ => idxs.Nodup
+  | _, _ => True
+
+instance (e : Edit) (n : Nat) : Decidable (CoreEdit e n) := by
+  cases e <;> unfold CoreEdit <;> infer_instance
+
+theorem Edit.apply_nodup [DecidableEq α] {e : Edit} {old ys new : List α} {ret : Option α}
+    (h : e.apply old ys = .ok (new, ret)) (ho : old.Nodup) (hy : ys.Nodup)
+    (hd : ∀ y ∈ ys, y ∉ remain e old) (hc : CoreEdit e old.length) : new.Nodup := by
+  cases e with
+  | append =>
+    simp only [Edit.apply, Except.ok.injEq, Prod.mk.injEq] at h
+    obtain ⟨rfl, rfl⟩ := h
+    simp only [remain] at hd
+    rw [List.nodup_append]
+    exact ⟨ho, hy, fun a ha b hb e => by subst e; exact hd a hb ha⟩
+  | insert i =>
+    simp only [Edit.apply, Except.ok.injEq, Prod.mk.injEq] at h
+    obtain ⟨rfl, rfl⟩ := h
+    simp only [remain] at hd
+    apply nodup_mid
+    · rw [List.take_append_drop]; exact ho
+    · exact hy
+    · rw [List.take_append_drop]; exact hd
+  | setInt i =>
+    simp only [Edit.apply] at h
+    rcases hk : normIdx old.length i with _ | k
+    · simp [hk] at h
+    · rcases ys with _ | ⟨y, _ | ⟨z, zs⟩⟩
+      · simp [hk] at h
+      · simp only [hk, Except.ok.injEq, Prod.mk.injEq] at h
+        obtain ⟨rfl, rfl⟩ := h
+        simp only [remain, hk, List.eraseIdx_eq_take_drop_succ] at hd
+        rw [List.set_eq_take_append_cons_drop]
+        split
+        · have := @nodup_mid α (old.take k) (old.drop (k + 1)) [y]
+            ((take_drop_sublist old k (k + 1) (by omega)).nodup ho) hy hd
+          simpa using this
+        · exact ho
+      · simp [hk] at h
+  | setSlice sl =>
+    simp only [Edit.apply] at h
+    split at h
+    · cases h
+    · rename_i a ha
+      simp only [CoreEdit, plainSlice, ha, beq_iff_eq] at hc
+      simp only [hc, if_true, Except.ok.injEq, Prod.mk.injEq] at h
+      obtain ⟨rfl, rfl⟩ := h
+      simp only [remain, ha] at hd
+      apply nodup_mid _ hy hd
+      apply (take_drop_sublist old _ _ _).nodup ho
+      have : a.1 ≤ max a.2.1 a.1 := Int.le_max_right _ _
+      omega
+  | replace =>
+    simp only [Edit.apply, Except.ok.injEq, Prod.mk.injEq] at h
+    obtain ⟨rfl, rfl⟩ := h
+    exact hy
+  | delInt i =>
+    simp only [Edit.apply] at h
+    split at h
+    · simp only [Except.ok.injEq, Prod.mk.injEq] at h
+      obtain ⟨rfl, rfl⟩ := h
+      exact (List.eraseIdx_sublist _ _).nodup ho
+    · cases h
+  | delSlice sl =>
+    simp only [Edit.apply] at h
+    split at h
+    · cases h
+    · simp only [Except.ok.injEq, Prod.mk.injEq] at h
+      obtain ⟨rfl, rfl⟩ := h
+      exact (dropIdx_sublist _ _ _).nodup ho
+  | pop i =>
+    simp only [Edit.apply] at h
+    split at h
+    · simp only [Except.ok.injEq, Prod.mk.injEq] at h
+      obtain ⟨rfl, rfl⟩ := h
+      exact (List.eraseIdx_sublist _ _).nodup ho
+    · cases h
+  | delAt k =>
+    simp only [Edit.apply, Except.ok.injEq, Prod.mk.injEq] at h
+    obtain ⟨rfl, rfl⟩ := h
+    exact (List.eraseIdx_sublist _ _).nodup ho
+  | reverse =>
+    simp only [Edit.apply, Except.ok.injEq, Prod.mk.injEq] at h
+    obtain ⟨rfl, rfl⟩ := h
+    rw [List.Nodup, List.pairwise_reverse]
+    exact ho.imp (fun h => Ne.symm h)
+  | permute idxs =>
+    simp only [Edit.apply, Except.ok.injEq, Prod.mk.injEq] at h
+    obtain ⟨rfl, rfl⟩ := h
+    exact pick_nodup old idxs ho hc
+  | clear =>
+    simp only [Edit.apply, Except.ok.injEq, Prod.mk.injEq] at h
+    obtain ⟨rfl, rfl⟩ := h
+    exact List.nodup_nil
+
+end NodupLists
+
+namespace World
+
+theorem copySome_nodup (w : World) (xs : List Nat) (fl : List Bool) (hk : (keptOf xs fl).Nodup)
+    (hx : ∀ x ∈ xs, x < w.nextA) : (w.copySome xs fl).2.Nodup := by
+  induction xs generalizing w fl with
+  | nil => simp [copySome]
+  | cons a r ih =>
+    have hr : ∀ x ∈ r, x < w.nextA := fun x h => hx x (by simp [h])
+    cases fl with
+    | nil =>
+      simp only [keptOf, List.nodup_cons] at hk
+      simp only [copySome, List.nodup_cons]
+      refine ⟨?_, ih w [] hk.2 hr⟩
+      intro hin
+      rcases copySome_mem w r [] a hin with h | h
+      · exact hk.1 h
+      · have := hx a (by simp); omega
+    | cons b fr =>
+      cases b with
+      | false =>
+        simp only [keptOf, List.nodup_cons] at hk
+        simp only [copySome, List.nodup_cons]
+        refine ⟨?_, ih w fr hk.2 hr⟩
+        intro hin
+        rcases copySome_mem w r fr a hin with h | h
+        · exact hk.1 h
+        · have := hx a (by simp); omega
+      | true =>
+        simp only [keptOf] at hk
+        simp only [copySome, List.nodup_cons]
+        have hr' : ∀ x ∈ r, x < (w.allocAtom (w.pay a) (w.alat a)).nextA := by
+          intro x h; have := hr x h; simp only [allocAtom_nextA]; omega
+        refine ⟨?_, ih _ fr hk hr'⟩
+        intro hin
+        rcases copySome_mem _ r fr w.nextA hin with h | h
+        · have := hr w.nextA (keptOf_subset r fr _ h); omega
+        · have := h.1; simp only [allocAtom_nextA] at this; omega
+
+/-- no live structure holds an atom object in two slots -/
+def NodupInv (w : World) : Prop := ∀ s ∈ w.strus, s.live = true → s.atoms.Nodup
+
+/-- the member list an action edits (empty for a new structure) -/
+def oldOf (w : World) (p : Plan Nat) : List Nat := match p.tgt with
+  | .old h => w.atomsOf h
+  | .new _ => []
+
+/-- side condition of `no_alias`, on the action and the pre-state: the atoms taken over *without
+copying* are pairwise different and none of them is a member that stays in the target (i.e. the caller
+did not pass `copy=False` a duplicate, and a slice assignment / index selection does not list one
+member twice); the edit is not an extended-slice assignment; pickling uses protocol ≥ 2 -/
+def DupFreeAct (w : World) : Act Nat → Prop
+  | .plan p =>
+    (keptOf p.inc p.flags).Nodup ∧ (∀ y ∈ keptOf p.inc p.flags, y ∉ remain p.edit (oldOf w p)) ∧
+    CoreEdit p.edit (oldOf w p).length
+  | .copyShape _ _ => False
+  | _ => True
+
+theorem prep_atomsOf (w : World) (p : Plan Nat) :
+    (w.prep p).1.atomsOf (w.prep p).2.1 = oldOf w p := by
+  obtain ⟨e1, _, _, _, e5, _⟩ := prep_strus w p
+  obtain ⟨_, _, _, _, _, g6⟩ := w1_frame w p
+  simp only [atomsOf, e1, g6, e5, hT, oldOf]
+  cases p.tgt with
+  | old h => rfl
+  | new src => cases src <;> simp
+
+theorem prep_nodupInv {w : World} (hn : NodupInv w) (p : Plan Nat) : NodupInv (w.prep p).1 := by
+  obtain ⟨e1, _, _, _, _, _⟩ := prep_strus w p
+  obtain ⟨_, _, _, _, _, g6⟩ := w1_frame w p
+  intro s hs hl
+  rw [e1, g6] at hs
+  cases htg : p.tgt with
+  | old h => rw [htg] at hs; exact hn s hs hl
+  | new src =>
+    cases src with
+    | fresh =>
+      simp only [htg, List.mem_append, List.mem_singleton] at hs
+      rcases hs with hs | hs
+      · exact hn s hs hl
+      · subst hs; exact List.nodup_nil
+    | ofStru h' =>
+      simp only [htg, List.mem_append, List.mem_singleton] at hs
+      rcases hs with hs | hs
+      · exact hn s hs hl
+      · subst hs; exact List.nodup_nil
+
+theorem atomsOf_nodup {w : World} (hn : NodupInv w) (h : Nat) : (w.atomsOf h).Nodup := by
+  simp only [atomsOf]
+  split
+  · rename_i s hs
+    split
+    · rename_i hl; exact hn s (List.mem_of_getElem? hs) hl
+    · exact List.nodup_nil
+  · exact List.nodup_nil
+
+theorem execPlan_nodup {w : World} (hw : Wf w) (hn : NodupInv w) (p : Plan Nat) (hinc : ∀ x ∈ p.inc, x < w.nextA)
+    (hd : DupFreeAct w (.plan p)) : NodupInv (w.execPlan p).1 := by
+  have hq := prep_nodupInv hn p
+  obtain ⟨hd1, hd2, hd3⟩ := hd
+  obtain ⟨_, _, _, _, _, e6⟩ := prep_strus w p
+  obtain ⟨_, _, g3, _, _, _⟩ := w1_frame w p
+  rw [execPlan_eq]
+  rcases hap : p.edit.apply ((w.prep p).1.atomsOf (w.prep p).2.1) (w.prep p).2.2 with e | ⟨new, ret⟩
+  · exact hq
+  · simp only [worldFinish]
+    rw [prep_atomsOf] at hap
+    have hold : (oldOf w p).Nodup := by
+      simp only [oldOf]; cases p.tgt with
+      | old h => exact atomsOf_nodup hn h
+      | new _ => exact List.nodup_nil
+    have hys : (w.prep p).2.2.Nodup := by
+      rw [e6]; exact copySome_nodup _ _ _ hd1 (by intro x hx; rw [g3]; exact hinc x hx)
+    have hdis : ∀ y ∈ (w.prep p).2.2, y ∉ remain p.edit (oldOf w p) := by
+      intro y hy hin
+      rw [e6] at hy
+      rcases copySome_mem (w1 w p) p.inc p.flags y hy with h | h
+      · exact hd2 y h hin
+      · -- a fresh atom is not a member of the old list
+        have hlt : ∀ z ∈ oldOf w p, z < w.nextA := by
+          intro z hz
+          simp only [oldOf] at hz
+          cases htg : p.tgt with
+          | old h => rw [htg] at hz; exact atomsOf_lt hw h z hz
+          | new _ => rw [htg] at hz; simp at hz
+        have hsub : ∀ z ∈ remain p.edit (oldOf w p), z ∈ oldOf w p := by
+          intro z hz
+          cases hedit : p.edit <;> simp only [hedit, remain] at hz <;> try exact hz
+          · split at hz
+            · exact (List.eraseIdx_sublist _ _).subset hz
+            · exact hz
+          · split at hz
+            · simp only [List.mem_append] at hz
+              rcases hz with hz | hz
+              · exact List.mem_of_mem_take hz
+              · exact List.mem_of_mem_drop hz
+            · exact hz
+          · simp at hz
+        have := hlt y (hsub y hin)
+        rw [g3] at h
+        omega
+    have hnew := Edit.apply_nodup hap hold hys hdis hd3
+    intro s hsm hl
+    simp only [setAtoms] at hsm
+    rcases mem_updAt_idx hsm with h | ⟨t, ht, rfl⟩
+    · exact hq s h hl
+    · exact hnew
+
+theorem exec_nodup {w : World} (hw : Wf w) (hn : NodupInv w) (act : Act Nat) (hok : ActOk w act)
+    (hd : DupFreeAct w act) : NodupInv (w.exec act).1 := by
+  cases act with
+  | plan p => exact execPlan_nodup hw hn p hok.1 hd
+  | retAtom a h => exact hn
+  | mkAtom p => exact hn
+  | addNew h p =>
+    intro s hsm hl
+    simp only [exec, setAtoms] at hsm
+    rcases mem_updAt_idx hsm with h1 | ⟨t, ht, rfl⟩
+    · exact hn s h1 hl
+    · simp only
+      rw [List.nodup_append]
+      refine ⟨atomsOf_nodup hn h, by simp, ?_⟩
+      intro a ha b hb e
+      simp only [List.mem_singleton] at hb
+      have := atomsOf_lt hw h a ha
+      omega
+  | setLat h src =>
+    intro s hsm hl
+    simp only [exec] at hsm
+    have hstr : (match src with
+        | LatSrc.fresh => w.newLat
+        | LatSrc.ofStru _ => w).strus = w.strus := by cases src <;> rfl
+    rcases mem_updAt_idx hsm with h1 | ⟨t, ht, rfl⟩
+    · cases src <;> exact hn s h1 hl
+    · cases src <;> exact hn t (List.mem_of_getElem? ht) hl
+  | drop h =>
+    intro s hsm hl
+    simp only [exec] at hsm
+    rcases mem_updAt_idx hsm with h1 | ⟨t, ht, rfl⟩
+    · exact hn s h1 hl
+    · simp at hl
+  | copyShape h xs => exact hd.elim
+
+instance (w : World) (act : Act Nat) : Decidable (DupFreeAct w act) := by
+  cases act <;> unfold DupFreeAct <;> infer_instance
+
+/-- the side condition of one step of `no_alias` -/
+def DupFree (w : World) (op : Op) : Prop :=
+  match planG w.view op with
+  | .ok act => DupFreeAct w act
+  | .error _ => True
+
+instance (w : World) (op : Op) : Decidable (DupFree w op) := by
+  unfold DupFree
+  cases planG w.view op <;> infer_instance
+
+theorem stepFull_nodup {w : World} (hw : Wf w) (hn : NodupInv w) (op : Op) (hd : DupFree w op) :
+    NodupInv (w.stepFull op).1 := by
+  simp only [stepFull]
+  simp only [DupFree] at hd
+  split
+  · exact hn
+  · rename_i act hact
+    rw [hact] at hd
+    exact exec_nodup hw hn act (planG_all (view_all hw) hact) hd
+
+def DupFreeHist : World → List Op → Prop
+  | _, [] => True
+  | w, op :: ops => DupFree w op ∧ DupFreeHist (w.stepFull op).1 ops
+
+instance decDupFreeHist : (w : World) → (ops : List Op) → Decidable (DupFreeHist w ops)
+  | _, [] => isTrue trivial
+  | w, op :: ops => @instDecidableAnd _ _ _ (decDupFreeHist (w.stepFull op).1 ops)
+
+theorem run_nodup {w : World} (hw : Wf w) (hn : NodupInv w) (ops : List Op) (hd : DupFreeHist w ops) :
+    NodupInv (w.run ops) := by
+  induction ops generalizing w with
+  | nil => exact hn
+  | cons op ops ih => exact ih (stepFull_wf hw op) (stepFull_nodup hw hn op hd.1) hd.2
+
+end World
 
 end DS.World
